@@ -80,72 +80,369 @@ theorem kvF_delFabric (kv : KV) (k i : Nat) :
 def kvNets (kv : KV) : List Nat × Bool := match kv.nets with | some p => p | none => ([], false)
 def exemptIdx (n : Node) : Nat := match n.fs with | some a => a.fab | none => 0
 
-/-- node and store agree: on every fabric index except the one the fail-safe is armed for, and -
-while no fail-safe is armed - on the networks -/
-def Coh (n : Node) : Prop :=
-  (∀ i, i ≠ 0 → i ≠ exemptIdx n → getFabric n i = kvF n.kv i) ∧
-  (n.fs = none → (n.nets, n.managed) = kvNets n.kv)
 
-theorem kvTick_nofault (n : Node) (h : n.failIn = 0) : kvTick n = (n, false) := by
-  simp [kvTick, h]
+/-! ## the store primitives, with or without an injected fault -/
 
-theorem storeFabric_nofault (n : Node) (f : Fabric) (h : n.failIn = 0) :
-    storeFabric n f = (kvCommit n (n.kv.putFabric f), true) := by
-  simp [storeFabric, kvTick_nofault n h]
+/-- everything the invariants look at, except the store, is unchanged -/
+structure Frame (n n' : Node) : Prop where
+  fabrics : n'.fabrics = n.fabrics
+  sessions : n'.sessions = n.sessions
+  resum : n'.resum = n.resum
+  fs : n'.fs = n.fs
+  nets : n'.nets = n.nets
+  managed : n'.managed = n.managed
+  nextGen : n'.nextGen = n.nextGen
 
-theorem removeFabricKey_nofault (n : Node) (i : Nat) (h : n.failIn = 0) :
-    removeFabricKey n i = (if n.kv.hasFabric i then kvCommit n (n.kv.delFabric i) else n, true) := by
-  simp only [removeFabricKey, kvTick_nofault n h]
-  by_cases hk : n.kv.hasFabric i = true <;> simp [hk]
+theorem Frame.refl (n : Node) : Frame n n := ⟨rfl, rfl, rfl, rfl, rfl, rfl, rfl⟩
 
-theorem storeNets_nofault (n : Node) (h : n.failIn = 0) :
-    storeNets n = (kvCommit n { n.kv with nets := some (n.nets, n.managed) }, true) := by
-  simp [storeNets, kvTick_nofault n h]
+theorem Frame.trans {a b c : Node} (h1 : Frame a b) (h2 : Frame b c) : Frame a c :=
+  ⟨by rw [h2.fabrics, h1.fabrics], by rw [h2.sessions, h1.sessions], by rw [h2.resum, h1.resum],
+   by rw [h2.fs, h1.fs], by rw [h2.nets, h1.nets], by rw [h2.managed, h1.managed],
+   by rw [h2.nextGen, h1.nextGen]⟩
 
-theorem purgeResum_nofault (n : Node) (i : Nat) (h : n.failIn = 0) :
-    (purgeResum n i).2 = true ∧ (purgeResum n i).1.failIn = 0 ∧
-    (purgeResum n i).1.fabrics = n.fabrics ∧ (purgeResum n i).1.fs = n.fs ∧
-    (purgeResum n i).1.nets = n.nets ∧ (purgeResum n i).1.managed = n.managed ∧
-    (purgeResum n i).1.kv.fabs = n.kv.fabs ∧ (purgeResum n i).1.kv.nets = n.kv.nets ∧
-    (purgeResum n i).1.sessions = n.sessions := by
+theorem kvTick_frame (n : Node) :
+    Frame n (kvTick n).1 ∧ (kvTick n).1.kv = n.kv ∧ (kvTick n).1.hist = n.hist := by
+  refine ⟨⟨?_, ?_, ?_, ?_, ?_, ?_, ?_⟩, ?_, ?_⟩
+  all_goals (unfold kvTick; split <;> (try split) <;> rfl)
+
+/-- closes `x = x` goals, also after `simp only` has turned them into `True` -/
+macro "triv" : term => `(by first | rfl | trivial)
+
+/-- `FabricPersist::store`: either the blob is written (one new element of the store history), or
+the call fails and the store is untouched -/
+theorem storeFabric_spec (n : Node) (f : Fabric) :
+    Frame n (storeFabric n f).1 ∧
+    (((storeFabric n f).2 = true ∧ (storeFabric n f).1.kv = n.kv.putFabric f ∧
+        (storeFabric n f).1.hist = n.kv.putFabric f :: n.hist) ∨
+     ((storeFabric n f).2 = false ∧ (storeFabric n f).1.kv = n.kv ∧ (storeFabric n f).1.hist = n.hist)) := by
+  have ⟨hfr, hkv, hh⟩ := kvTick_frame n
+  unfold storeFabric
+  rcases ht : kvTick n with ⟨n1, bad⟩
+  rw [ht] at hfr hkv hh
+  simp only at hfr hkv hh
+  cases bad with
+  | true => exact ⟨hfr, Or.inr ⟨triv, hkv, hh⟩⟩
+  | false =>
+    simp only [Bool.false_eq_true, if_false, kvCommit]
+    refine ⟨⟨hfr.fabrics, hfr.sessions, hfr.resum, hfr.fs, hfr.nets, hfr.managed, hfr.nextGen⟩, Or.inl ⟨triv, ?_, ?_⟩⟩
+    · simp only [hkv]
+    · simp only [hkv, hh]
+
+/-- `FabricPersist::remove` -/
+theorem removeFabricKey_spec (n : Node) (idx : Nat) :
+    Frame n (removeFabricKey n idx).1 ∧ (removeFabricKey n idx).1.kv.nets = n.kv.nets ∧
+    (removeFabricKey n idx).1.kv.resum = n.kv.resum ∧
+    (((removeFabricKey n idx).2 = true ∧
+        (∀ i, kvF (removeFabricKey n idx).1.kv i = if i = idx then none else kvF n.kv i) ∧
+        ((removeFabricKey n idx).1.kv = n.kv.delFabric idx ∧
+            (removeFabricKey n idx).1.hist = n.kv.delFabric idx :: n.hist ∨
+         (removeFabricKey n idx).1.kv = n.kv ∧ (removeFabricKey n idx).1.hist = n.hist)) ∨
+     ((removeFabricKey n idx).2 = false ∧ (removeFabricKey n idx).1.kv = n.kv ∧
+        (removeFabricKey n idx).1.hist = n.hist)) := by
+  have ⟨hfr, hkv, hh⟩ := kvTick_frame n
+  unfold removeFabricKey
+  rcases ht : kvTick n with ⟨n1, bad⟩
+  rw [ht] at hfr hkv hh
+  simp only at hfr hkv hh
+  cases bad with
+  | true => exact ⟨hfr, by simp only [if_true, hkv], by simp only [if_true, hkv], Or.inr ⟨triv, hkv, hh⟩⟩
+  | false =>
+    simp only [Bool.false_eq_true, if_false]
+    by_cases hk : n1.kv.hasFabric idx = true
+    · simp only [hk, if_true, kvCommit]
+      refine ⟨⟨hfr.fabrics, hfr.sessions, hfr.resum, hfr.fs, hfr.nets, hfr.managed, hfr.nextGen⟩, ?_, ?_, Or.inl ⟨triv, ?_, Or.inl ⟨?_, ?_⟩⟩⟩
+      · simp only [KV.delFabric, hkv]
+      · simp only [KV.delFabric, hkv]
+      · intro i; rw [kvF_delFabric, hkv]
+      · simp only [hkv]
+      · simp only [hkv, hh]
+    · have hk' : n1.kv.hasFabric idx = false := by simpa using hk
+      simp only [hk', Bool.false_eq_true, if_false]
+      refine ⟨hfr, by rw [hkv], by rw [hkv], Or.inl ⟨triv, ?_, Or.inr ⟨hkv, hh⟩⟩⟩
+      intro i
+      rw [hkv]
+      by_cases hi : i = idx
+      · subst hi
+        simp only [if_true]
+        rw [hkv] at hk'
+        unfold KV.hasFabric at hk'
+        unfold kvF
+        rw [List.find?_eq_none]
+        intro f hfm
+        have := (List.any_eq_false.mp hk') f hfm
+        simpa using this
+      · simp only [hi, if_false]
+
+theorem storeNets_spec (n : Node) :
+    Frame n (storeNets n).1 ∧
+    (((storeNets n).2 = true ∧ (storeNets n).1.kv = { n.kv with nets := some (n.nets, n.managed) } ∧
+        (storeNets n).1.hist = { n.kv with nets := some (n.nets, n.managed) } :: n.hist) ∨
+     ((storeNets n).2 = false ∧ (storeNets n).1.kv = n.kv ∧ (storeNets n).1.hist = n.hist)) := by
+  have ⟨hfr, hkv, hh⟩ := kvTick_frame n
+  unfold storeNets
+  rcases ht : kvTick n with ⟨n1, bad⟩
+  rw [ht] at hfr hkv hh
+  simp only at hfr hkv hh
+  cases bad with
+  | true => exact ⟨hfr, Or.inr ⟨triv, hkv, hh⟩⟩
+  | false =>
+    simp only [Bool.false_eq_true, if_false, kvCommit]
+    refine ⟨⟨hfr.fabrics, hfr.sessions, hfr.resum, hfr.fs, hfr.nets, hfr.managed, hfr.nextGen⟩, Or.inl ⟨triv, ?_, ?_⟩⟩
+    · simp only [hkv, hfr.nets, hfr.managed]
+    · simp only [hkv, hh, hfr.nets, hfr.managed]
+
+/-- `MatterState::purge_resumption_for_fabric`: the records of `idx` are gone from the cache; the
+store is touched in its resumption blob only (if at all) -/
+theorem purgeResum_spec (n : Node) (idx : Nat) :
+    (purgeResum n idx).1.fabrics = n.fabrics ∧ (purgeResum n idx).1.sessions = n.sessions ∧
+    (purgeResum n idx).1.fs = n.fs ∧ (purgeResum n idx).1.nets = n.nets ∧
+    (purgeResum n idx).1.managed = n.managed ∧ (purgeResum n idx).1.nextGen = n.nextGen ∧
+    (purgeResum n idx).1.resum = n.resum.filter (fun r => r.fab ≠ idx) ∧
+    (purgeResum n idx).1.kv.fabs = n.kv.fabs ∧ (purgeResum n idx).1.kv.nets = n.kv.nets ∧
+    (((purgeResum n idx).1.kv = n.kv ∧ (purgeResum n idx).1.hist = n.hist) ∨
+     ((purgeResum n idx).2 = true ∧
+      (purgeResum n idx).1.kv = { n.kv with resum := .recs (n.resum.filter (fun r => r.fab ≠ idx)) } ∧
+      (purgeResum n idx).1.hist = { n.kv with resum := .recs (n.resum.filter (fun r => r.fab ≠ idx)) } :: n.hist)) := by
   unfold purgeResum
-  split
-  · simp [kvTick, h, kvCommit]
-  · simp [h]
+  generalize hn0 : ({ n with resum := n.resum.filter (fun r => decide (r.fab ≠ idx)) } : Node) = n0
+  have ⟨hfr, hkv, hh⟩ := kvTick_frame n0
+  rcases ht : kvTick n0 with ⟨n1, bad⟩
+  rw [ht] at hfr hkv hh
+  simp only at hfr hkv hh
+  have e1 : n0.fabrics = n.fabrics := by rw [← hn0]
+  have e2 : n0.sessions = n.sessions := by rw [← hn0]
+  have e3 : n0.fs = n.fs := by rw [← hn0]
+  have e4 : n0.nets = n.nets := by rw [← hn0]
+  have e5 : n0.managed = n.managed := by rw [← hn0]
+  have e6 : n0.nextGen = n.nextGen := by rw [← hn0]
+  have e7 : n0.resum = n.resum.filter (fun r => decide (r.fab ≠ idx)) := by rw [← hn0]
+  have e8 : n0.kv = n.kv := by rw [← hn0]
+  have e9 : n0.hist = n.hist := by rw [← hn0]
+  simp only [ht]
+  cases bad with
+  | true =>
+    simp only [if_true]
+    exact ⟨by rw [hfr.fabrics, e1], by rw [hfr.sessions, e2], by rw [hfr.fs, e3], by rw [hfr.nets, e4],
+      by rw [hfr.managed, e5], by rw [hfr.nextGen, e6], by rw [hfr.resum, e7], by rw [hkv, e8], by rw [hkv, e8],
+      Or.inl ⟨by rw [hkv, e8], by rw [hh, e9]⟩⟩
+  | false =>
+    simp only [Bool.false_eq_true, if_false, kvCommit]
+    refine ⟨by rw [hfr.fabrics, e1], by rw [hfr.sessions, e2], by rw [hfr.fs, e3], by rw [hfr.nets, e4],
+      by rw [hfr.managed, e5], by rw [hfr.nextGen, e6], by rw [hfr.resum, e7], ?_, ?_, Or.inr ⟨triv, ?_, ?_⟩⟩
+    · simp only [hkv, e8]
+    · simp only [hkv, e8]
+    · simp only [hkv, e8, hfr.resum, e7]
+    · simp only [hkv, e8, hfr.resum, e7, hh, e9]
 
-theorem coh_congr {n n' : Node} (h1 : n'.fabrics = n.fabrics) (h2 : n'.fs = n.fs)
-    (h3 : n'.nets = n.nets) (h4 : n'.managed = n.managed) (h5 : n'.kv.fabs = n.kv.fabs)
-    (h6 : n'.kv.nets = n.kv.nets) (h : Coh n) : Coh n' := by
-  unfold Coh getFabric kvF kvNets exemptIdx at *
-  simp only [h1, h2, h3, h4, h5, h6]
-  exact h
 
-end Admin
+/-! ## coherence of node and store, store faults included -/
 
-namespace Admin
+/-- the fabric the fail-safe context is bound to was not changed in memory behind the store's back:
+no deferred write, no `UpdateNOC`, not the (unstored) fabric of an `AddNOC` -/
+def DefOK (n : Node) (D : List Nat) : Prop :=
+  ∀ a, n.fs = some a → a.fab ≠ 0 → a.deferred = false → a.flags.updNoc = false → a.flags.addNoc = false →
+    a.fab ∈ D ∨ getFabric n a.fab = kvF n.kv a.fab
+
+/-- node and store agree: on every fabric index except the one the fail-safe is armed for and the
+*dirty* ones (`D`: a fabric-scoped write outside the fail-safe was answered with a store error - the
+change is in memory, not in the store), and - while no fail-safe is armed - on the networks -/
+def CohD (n : Node) (D : List Nat) : Prop :=
+  (∀ i, i ≠ 0 → i ≠ exemptIdx n → i ∉ D → getFabric n i = kvF n.kv i) ∧
+  (n.fs = none → (n.nets, n.managed) = kvNets n.kv) ∧ DefOK n D
+
+/-- coherence proper: nothing is dirty -/
+def Coh (n : Node) : Prop := CohD n []
 
 /-- full agreement of node and store (what `Coh` says once no fail-safe is armed) -/
 def Agree (n : Node) : Prop :=
   (∀ i, i ≠ 0 → getFabric n i = kvF n.kv i) ∧ (n.nets, n.managed) = kvNets n.kv
 
-theorem coh_of_agree {n : Node} (h : Agree n) : Coh n :=
-  ⟨fun i hi _ => h.1 i hi, fun _ => h.2⟩
+theorem cohD_mono {n : Node} {D D' : List Nat} (hs : ∀ i, i ∈ D → i ∈ D') (h : CohD n D) : CohD n D' :=
+  ⟨fun i h0 he hd => h.1 i h0 he (fun hm => hd (hs i hm)), h.2.1,
+   fun a ha h0 h1 h2 h3 => (h.2.2 a ha h0 h1 h2 h3).elim (fun hm => Or.inl (hs _ hm)) Or.inr⟩
 
-theorem agree_of_coh_idle {n : Node} (h : Coh n) (hfs : n.fs = none) : Agree n := by
-  refine ⟨fun i hi => h.1 i hi ?_, h.2 hfs⟩
+theorem cohD_of_agree {n : Node} (D : List Nat) (h : Agree n) : CohD n D :=
+  ⟨fun i hi _ _ => h.1 i hi, fun _ => h.2, fun a _ h0 _ _ _ => Or.inr (h.1 a.fab h0)⟩
+
+theorem agree_of_cohD_idle {n : Node} (h : CohD n []) (hfs : n.fs = none) : Agree n := by
+  refine ⟨fun i hi => h.1 i hi ?_ (by simp), h.2.1 hfs⟩
   simp [exemptIdx, hfs]; omega
 
-theorem rollbackFabrics_find (cfg : Cfg) (n : Node) (a : Armed) (fs : List Fabric)
-    (hc : Coh n) (hfs : n.fs = some a) (h : rollbackFabrics cfg n a = .ok fs) :
-    ∀ i, i ≠ 0 → fs.find? (fun f => decide (f.idx = i)) = kvF n.kv i := by
+theorem cohD_congr {n n' : Node} {D : List Nat} (h1 : n'.fabrics = n.fabrics) (h2 : n'.fs = n.fs)
+    (h3 : n'.nets = n.nets) (h4 : n'.managed = n.managed) (h5 : n'.kv.fabs = n.kv.fabs)
+    (h6 : n'.kv.nets = n.kv.nets) (h : CohD n D) : CohD n' D := by
+  unfold CohD DefOK getFabric kvF kvNets exemptIdx at *
+  simp only [h1, h2, h3, h4, h5, h6]
+  exact h
+
+theorem cohD_frame {n n' : Node} {D : List Nat} (hf : Frame n n') (h5 : n'.kv.fabs = n.kv.fabs)
+    (h6 : n'.kv.nets = n.kv.nets) (h : CohD n D) : CohD n' D :=
+  cohD_congr hf.fabrics hf.fs hf.nets hf.managed h5 h6 h
+
+/-- a change of the fail-safe context that keeps its fabric (re-arming, a flag) or starts a context -/
+theorem cohD_setfs {n : Node} {D : List Nat} (b : Armed) (bc st : Nat) (hc : CohD n D)
+    (h : (n.fs = none ∧ b.deferred = false ∨
+         ∃ a, n.fs = some a ∧ a.fab = b.fab ∧ (b.deferred = false → a.deferred = false) ∧
+           (b.flags.updNoc = false → a.flags.updNoc = false) ∧
+           (b.flags.addNoc = false → a.flags.addNoc = false))) :
+    CohD { n with fs := some b, bc := bc, staged := st } D := by
+  refine ⟨fun i hi he hd => ?_, fun hn => by simp at hn, fun a ha h0 h1 h2 h3 => ?_⟩
+  · have he' : i ≠ b.fab := by simpa [exemptIdx] using he
+    rcases h with ⟨hn, _⟩ | ⟨a, ha, hab, _⟩
+    · have := hc.1 i hi (by simp [exemptIdx, hn]; omega) hd
+      simpa [getFabric, kvF] using this
+    · have := hc.1 i hi (by simp [exemptIdx, ha, hab]; exact he') hd
+      simpa [getFabric, kvF] using this
+  · have hab : a = b := by simpa using ha.symm
+    subst hab
+    rcases h with ⟨hn, _⟩ | ⟨a0, ha0, hab, d1, d2, d3⟩
+    · by_cases hd : a.fab ∈ D
+      · exact Or.inl hd
+      · right
+        have := hc.1 a.fab h0 (by simp [exemptIdx, hn]; omega) hd
+        simpa [getFabric, kvF] using this
+    · have := hc.2.2 a0 ha0 (by rw [hab]; exact h0) (d1 h1) (d2 h2) (d3 h3)
+      rw [hab] at this
+      simpa [getFabric, kvF] using this
+
+/-- network changes are only made while the fail-safe is armed -/
+theorem cohD_nets_armed {n : Node} {D : List Nat} (l : List Nat) (m : Bool) (hc : CohD n D) (ha : n.fs ≠ none) :
+    CohD { n with nets := l, managed := m } D := by
+  refine ⟨fun i hi he hd => ?_, fun hn => absurd hn ha, fun a ha' h0 h1 h2 h3 => ?_⟩
+  · have := hc.1 i hi (by simpa [exemptIdx] using he) hd
+    simpa [getFabric, kvF] using this
+  · have := hc.2.2 a ha' h0 h1 h2 h3
+    simpa [getFabric, kvF] using this
+
+theorem checkArmed_none {n : Node} {mode : Mode} (h : checkArmed n mode = none) :
+    ∃ a, n.fs = some a ∧ a.fab = mode.fab := by
+  unfold checkArmed at h
+  cases hfs : n.fs with
+  | none => simp [hfs] at h
+  | some a =>
+    simp only [hfs] at h
+    by_cases hab : a.fab = mode.fab
+    · exact ⟨a, triv, hab⟩
+    · simp [hab] at h
+
+theorem getFabric_idx {n : Node} {i : Nat} {f : Fabric} (h : getFabric n i = some f) : f.idx = i := by
+  simpa using List.find?_some h
+
+theorem armedFor_iff (n : Node) (i : Nat) : armedFor n i = true ↔ ∃ a, n.fs = some a ∧ a.fab = i := by
+  unfold armedFor
+  cases n.fs with
+  | none => simp
+  | some a => simp
+
+/-- a fabric-scoped write of fabric `f.idx` (ACL, group, label): the new record replaces the old one
+in the node; it is stored unless the fail-safe is armed for this fabric (then the context remembers
+the deferred change); a failing store leaves the fabric dirty -/
+theorem cohD_fabric_write (n : Node) (D : List Nat) (f f' : Fabric) (hidx : f'.idx = f.idx) (hne : f.idx ≠ 0)
+    (hget : getFabric n f.idx = some f) (hc : CohD n D) :
+    CohD (if armedFor (setFabric n f') f.idx then ok (markDeferred (setFabric n f'))
+      else match storeFabric (setFabric n f') f' with
+        | (n, true) => ok n
+        | (n, false) => (n, .err "NoSpace")).1
+      (if (if armedFor (setFabric n f') f.idx then ok (markDeferred (setFabric n f'))
+      else match storeFabric (setFabric n f') f' with
+        | (n, true) => ok n
+        | (n, false) => (n, .err "NoSpace")).2 = .err "NoSpace" then f.idx :: D else D) := by
+  generalize hn1 : setFabric n f' = n1
+  have hfs1 : n1.fs = n.fs := by rw [← hn1]; rfl
+  have hkv1 : n1.kv = n.kv := by rw [← hn1]; rfl
+  have hnets1 : n1.nets = n.nets := by rw [← hn1]; rfl
+  have hman1 : n1.managed = n.managed := by rw [← hn1]; rfl
+  have hget1 : ∀ i, getFabric n1 i = if i = f.idx then some f' else getFabric n i := by
+    intro i
+    rw [← hn1, getFabric_setFabric, hidx]
+    by_cases hi : i = f.idx
+    · subst hi; simp [hget]
+    · simp [hi]
+  have hex1 : exemptIdx n1 = exemptIdx n := by simp [exemptIdx, hfs1]
+  by_cases harm : armedFor n1 f.idx = true
+  · simp only [harm, if_true, ok]
+    have ⟨a, ha, hab⟩ := (armedFor_iff n1 f.idx).mp harm
+    have hmd : markDeferred n1 = { n1 with fs := some { a with deferred := true } } := by
+      unfold markDeferred; rw [ha]
+    rw [hmd]
+    have hne2 : (Status.ok = Status.err "NoSpace") = False := by simp
+    simp only [hne2, if_false]
+    refine ⟨fun i hi he hd => ?_, fun hn => by simp at hn, fun b hb h0 h1 _ _ => ?_⟩
+    · have hif : i ≠ f.idx := by simpa [exemptIdx, hab] using he
+      show getFabric n1 i = kvF n1.kv i
+      rw [hget1, if_neg hif, hkv1]
+      exact hc.1 i hi (by rw [← hex1]; simp [exemptIdx, ha, hab]; exact hif) hd
+    · have : b = { a with deferred := true } := by simpa using hb.symm
+      subst this
+      simp at h1
+  · have harm' : armedFor n1 f.idx = false := by simpa using harm
+    simp only [harm', Bool.false_eq_true, if_false]
+    have hna : ∀ a, n1.fs = some a → a.fab ≠ f.idx := by
+      intro a ha hab
+      exact harm ((armedFor_iff n1 f.idx).mpr ⟨a, ha, hab⟩)
+    have hexne : exemptIdx n1 ≠ f.idx := by
+      unfold exemptIdx
+      cases hfs : n1.fs with
+      | none => simp only []; omega
+      | some a => exact hna a hfs
+    have ⟨hfr, hst⟩ := storeFabric_spec n1 f'
+    rcases hr : storeFabric n1 f' with ⟨n2, b⟩
+    rw [hr] at hfr hst
+    simp only at hfr hst
+    have hget2 : ∀ i, getFabric n2 i = getFabric n1 i := by intro i; simp only [getFabric, hfr.fabrics]
+    have hex2 : exemptIdx n2 = exemptIdx n1 := by simp [exemptIdx, hfr.fs]
+    rcases hst with ⟨hb, hkv, _⟩ | ⟨hb, hkv, _⟩
+    · subst hb
+      simp only [ok]
+      have hne2 : (Status.ok = Status.err "NoSpace") = False := by simp
+      simp only [hne2, if_false]
+      refine ⟨fun i hi he hd => ?_, fun hn => ?_, fun a ha h0 h1 h2 h3 => ?_⟩
+      · rw [hget2, hget1, hkv, kvF_putFabric, hidx, hkv1]
+        by_cases hif : i = f.idx
+        · simp [hif]
+        · simp only [hif, if_false]
+          exact hc.1 i hi (by rw [← hex1, ← hex2]; exact he) hd
+      · have := hc.2.1 (by rw [← hfs1, ← hfr.fs]; exact hn)
+        rw [hfr.nets, hfr.managed, hnets1, hman1, this, hkv]
+        simp [kvNets, KV.putFabric, hkv1]
+      · have haf : a.fab ≠ f.idx := hna a (by rw [← hfr.fs]; exact ha)
+        rcases hc.2.2 a (by rw [← hfs1, ← hfr.fs]; exact ha) h0 h1 h2 h3 with hm | he
+        · exact Or.inl hm
+        · right
+          rw [hget2, hget1, if_neg haf, hkv, kvF_putFabric, hidx, if_neg haf, hkv1]
+          exact he
+    · subst hb
+      simp only [if_true]
+      refine ⟨fun i hi he hd => ?_, fun hn => ?_, fun a ha h0 h1 h2 h3 => ?_⟩
+      · have hif : i ≠ f.idx := fun h => hd (by rw [h]; exact List.mem_cons_self)
+        rw [hget2, hget1, if_neg hif, hkv, hkv1]
+        exact hc.1 i hi (by rw [← hex1, ← hex2]; exact he) (fun hm => hd (List.mem_cons_of_mem _ hm))
+      · have := hc.2.1 (by rw [← hfs1, ← hfr.fs]; exact hn)
+        rw [hfr.nets, hfr.managed, hnets1, hman1, this, hkv, hkv1]
+      · have haf : a.fab ≠ f.idx := hna a (by rw [← hfr.fs]; exact ha)
+        rcases hc.2.2 a (by rw [← hfs1, ← hfr.fs]; exact ha) h0 h1 h2 h3 with hm | he
+        · exact Or.inl (List.mem_cons_of_mem _ hm)
+        · right
+          rw [hget2, hget1, if_neg haf, hkv, hkv1]
+          exact he
+
+/-! ### rollback -/
+
+theorem rollbackFabrics_find (cfg : Cfg) (n : Node) (D : List Nat) (a : Armed) (fs : List Fabric)
+    (hc : CohD n D) (hfs : n.fs = some a) (h : rollbackFabrics cfg n a = .ok fs) :
+    ∀ i, i ≠ 0 → i ∉ D ∨ i = a.fab → fs.find? (fun f => decide (f.idx = i)) = kvF n.kv i := by
   have hex : exemptIdx n = a.fab := by simp [exemptIdx, hfs]
   unfold rollbackFabrics at h
   simp only [decide_not] at h
-  intro i hi
+  intro i hi hd
   by_cases h0 : a.fab = 0
   · rw [if_pos h0] at h
     injection h with h; subst h
-    have := hc.1 i hi (by rw [hex, h0]; exact hi)
+    have hd' : i ∉ D := by
+      rcases hd with hd | hd
+      · exact hd
+      · exact absurd (hd.trans h0) hi
+    have := hc.1 i hi (by rw [hex, h0]; exact hi) hd'
     simpa [getFabric] using this
   · rw [if_neg h0] at h
     cases hk : n.kv.fabs.find? (fun f => decide (f.idx = a.fab)) with
@@ -156,7 +453,8 @@ theorem rollbackFabrics_find (cfg : Cfg) (n : Node) (a : Armed) (fs : List Fabri
       by_cases hia : i = a.fab
       · simp [hia, kvF, hk]
       · simp only [hia, if_false]
-        have := hc.1 i hi (by rw [hex]; exact hia)
+        have hd' : i ∉ D := hd.elim id (fun h => absurd h hia)
+        have := hc.1 i hi (by rw [hex]; exact hia) hd'
         simpa [getFabric] using this
     | some f =>
       simp only [hk] at h
@@ -170,314 +468,220 @@ theorem rollbackFabrics_find (cfg : Cfg) (n : Node) (a : Armed) (fs : List Fabri
           simp [kvF, hk, hfidx]
         · have hfi : ¬ f.idx = i := by omega
           simp only [hia, if_false, hfi]
-          have := hc.1 i hi (by rw [hex]; exact hia)
+          have hd' : i ∉ D := hd.elim id (fun h => absurd h hia)
+          have := hc.1 i hi (by rw [hex]; exact hia) hd'
           simp only [getFabric] at this
           rw [this]
           cases kvF n.kv i <;> simp
       · rw [if_neg hroom] at h
         simp at h
 
-/-- **Rollback restores the stored view.**  If the node is coherent and `FailSafe::expire` succeeds,
-the fail-safe is disarmed, the store is untouched, and node and store agree on every fabric and on
-the networks. -/
-theorem expireArmed_agree (cfg : Cfg) (n : Node) (a : Armed) (exp : Option Nat)
-    (hc : Coh n) (hfs : n.fs = some a) (hok : (expireArmed cfg n a exp).2.1 = none) :
-    Agree (expireArmed cfg n a exp).1 ∧ (expireArmed cfg n a exp).1.fs = none ∧
-    (expireArmed cfg n a exp).1.kv = n.kv ∧ (expireArmed cfg n a exp).1.failIn = n.failIn := by
+/-- **Rollback restores the stored view.**  If `FailSafe::expire` succeeds, the fail-safe is disarmed,
+the store is untouched, and node and store agree on the networks and on every fabric that is not
+dirty - the fail-safe's own fabric included. -/
+theorem expireArmed_cohD (cfg : Cfg) (n : Node) (D : List Nat) (a : Armed) (exp : Option Nat)
+    (hc : CohD n D) (hfs : n.fs = some a) (hok : (expireArmed cfg n a exp).2.1 = none) :
+    CohD (expireArmed cfg n a exp).1 D ∧ (expireArmed cfg n a exp).1.fs = none ∧
+    (expireArmed cfg n a exp).1.kv = n.kv ∧ (expireArmed cfg n a exp).1.hist = n.hist ∧
+    (a.fab ≠ 0 → getFabric (expireArmed cfg n a exp).1 a.fab = kvF n.kv a.fab) ∧
+    ((expireArmed cfg n a exp).1.nets, (expireArmed cfg n a exp).1.managed) = kvNets n.kv := by
   unfold expireArmed at hok ⊢
   cases hr : rollbackFabrics cfg n a with
   | error e => simp [hr] at hok
   | ok fs =>
     simp only [hr]
-    refine ⟨⟨fun i hi => ?_, ?_⟩, ?_, ?_, ?_⟩
-    · simpa [getFabric] using rollbackFabrics_find cfg n a fs hc hfs hr i hi
+    have hfind := rollbackFabrics_find cfg n D a fs hc hfs hr
+    refine ⟨⟨fun i hi _ hd => ?_, fun _ => ?_, fun b hb => by simp at hb⟩, triv, triv, triv, fun h0 => ?_, ?_⟩
+    · simpa [getFabric] using hfind i hi (Or.inl hd)
     · simp [kvNets]; cases n.kv.nets <;> simp
-    all_goals simp
+    · simpa [getFabric] using hfind a.fab h0 (Or.inr triv)
+    · simp [kvNets]; cases n.kv.nets <;> simp
 
 theorem expireArmed_error (cfg : Cfg) (n : Node) (a : Armed) (exp : Option Nat) (e : String)
     (h : (expireArmed cfg n a exp).2.1 = some e) : (expireArmed cfg n a exp).1 = n := by
   unfold expireArmed at h ⊢
   cases hr : rollbackFabrics cfg n a <;> simp_all
 
-theorem agree_congr {n n' : Node} (h1 : n'.fabrics = n.fabrics)
-    (h3 : n'.nets = n.nets) (h4 : n'.managed = n.managed) (h5 : n'.kv.fabs = n.kv.fabs)
-    (h6 : n'.kv.nets = n.kv.nets) (h : Agree n) : Agree n' := by
-  unfold Agree getFabric kvF kvNets at *
-  simp only [h1, h3, h4, h5, h6]
-  exact h
-
-/-- `expire` + the purge of the resumption cache done by its callers, without store faults -/
-theorem expireAndPurge_agree (cfg : Cfg) (n : Node) (a : Armed) (exp : Option Nat)
-    (hc : Coh n) (hfs : n.fs = some a) (hf : n.failIn = 0) :
-    (expireAndPurge cfg n a exp).2 = none →
-      Agree (expireAndPurge cfg n a exp).1 ∧ (expireAndPurge cfg n a exp).1.fs = none ∧
-      (expireAndPurge cfg n a exp).1.failIn = 0 ∧
-      (expireAndPurge cfg n a exp).1.kv.fabs = n.kv.fabs ∧
-      (expireAndPurge cfg n a exp).1.kv.nets = n.kv.nets := by
+/-- `expire` + the purge of the resumption cache done by its callers (whatever the store answers) -/
+theorem expireAndPurge_cohD (cfg : Cfg) (n : Node) (D : List Nat) (a : Armed) (exp : Option Nat)
+    (hc : CohD n D) (hfs : n.fs = some a) :
+    CohD (expireAndPurge cfg n a exp).1 D ∧
+    (expireAndPurge cfg n a exp).1.kv.fabs = n.kv.fabs ∧ (expireAndPurge cfg n a exp).1.kv.nets = n.kv.nets ∧
+    ((expireArmed cfg n a exp).2.1 = none →
+      (expireAndPurge cfg n a exp).1.fs = none ∧
+      (a.fab ≠ 0 → getFabric (expireAndPurge cfg n a exp).1 a.fab = kvF n.kv a.fab) ∧
+      ((expireAndPurge cfg n a exp).1.nets, (expireAndPurge cfg n a exp).1.managed) = kvNets n.kv) := by
   unfold expireAndPurge
-  have key := expireArmed_agree cfg n a exp hc hfs
+  have key := expireArmed_cohD cfg n D a exp hc hfs
+  have kerr := expireArmed_error cfg n a exp
   rcases hres : expireArmed cfg n a exp with ⟨n1, e, r⟩
-  rw [hres] at key
+  rw [hres] at key kerr
   cases e with
-  | some e => simp
-  | none =>
-    have ⟨hag, hfs1, hkv, hfi⟩ := key rfl
-    simp only at hag hfs1 hkv hfi
-    cases r with
-    | none => intro _; exact ⟨hag, hfs1, by rw [hfi, hf], by rw [hkv], by rw [hkv]⟩
-    | some idx =>
-      have hf1 : n1.failIn = 0 := by rw [hfi, hf]
-      have ⟨p1, p2, p3, p4, p5, p6, p7, p8, _⟩ := purgeResum_nofault n1 idx hf1
-      rcases hp : purgeResum n1 idx with ⟨n2, b⟩
-      rw [hp] at p1 p2 p3 p4 p5 p6 p7 p8
-      simp only at p1 p2 p3 p4 p5 p6 p7 p8
-      subst p1
-      intro _
-      simp only [hp]
-      exact ⟨agree_congr p3 p5 p6 p7 p8 hag, by rw [p4, hfs1], p2, by rw [p7, hkv], by rw [p8, hkv]⟩
-
-theorem expireAndPurge_coh (cfg : Cfg) (n : Node) (a : Armed) (exp : Option Nat)
-    (hc : Coh n) (hfs : n.fs = some a) (hf : n.failIn = 0) :
-    Coh (expireAndPurge cfg n a exp).1 ∧ (expireAndPurge cfg n a exp).1.failIn = 0 := by
-  cases hr : (expireAndPurge cfg n a exp).2 with
-  | none =>
-    have ⟨h1, _, h3, _, _⟩ := expireAndPurge_agree cfg n a exp hc hfs hf hr
-    exact ⟨coh_of_agree h1, h3⟩
   | some e =>
-    -- without store faults the only error is the one of `expire` itself, which changes nothing
-    unfold expireAndPurge at hr ⊢
-    rcases hres : expireArmed cfg n a exp with ⟨n1, e1, r⟩
-    simp only [hres] at hr ⊢
-    cases e1 with
-    | some e1 =>
-      have := expireArmed_error cfg n a exp e1 (by rw [hres])
-      rw [hres] at this
-      simp only at this
-      subst this
-      exact ⟨hc, hf⟩
-    | none =>
-      have key := expireArmed_agree cfg n a exp hc hfs (by rw [hres])
-      rw [hres] at key
-      have ⟨hag, hfs1, hkv, hfi⟩ := key
-      simp only at hag hfs1 hkv hfi
-      cases r with
-      | none => simp at hr
-      | some idx =>
-        have hf1 : n1.failIn = 0 := by rw [hfi, hf]
-        have ⟨p1, _⟩ := purgeResum_nofault n1 idx hf1
-        rcases hp : purgeResum n1 idx with ⟨n2, b⟩
-        rw [hp] at p1
-        simp only at p1
-        subst p1
-        simp [hp] at hr
+    have := kerr e triv
+    simp only at this
+    subst this
+    exact ⟨hc, triv, triv, fun h => by simp at h⟩
+  | none =>
+    have ⟨hcd, hfs1, hkv, _, hfab, hnets⟩ := key triv
+    simp only at hcd hfs1 hkv hfab hnets
+    cases r with
+    | none => exact ⟨hcd, by rw [hkv], by rw [hkv], fun _ => ⟨hfs1, hfab, hnets⟩⟩
+    | some idx =>
+      have ⟨p1, _, p3, p4, p5, _, _, p8, p9, _⟩ := purgeResum_spec n1 idx
+      rcases hp : purgeResum n1 idx with ⟨n2, b⟩
+      rw [hp] at p1 p3 p4 p5 p8 p9
+      simp only at p1 p3 p4 p5 p8 p9
+      have hc2 : CohD n2 D := cohD_congr p1 p3 p4 p5 p8 p9 hcd
+      have fin : CohD n2 D ∧ n2.kv.fabs = n.kv.fabs ∧ n2.kv.nets = n.kv.nets ∧
+          ((none : Option String) = none → n2.fs = none ∧ (a.fab ≠ 0 → getFabric n2 a.fab = kvF n.kv a.fab) ∧
+            (n2.nets, n2.managed) = kvNets n.kv) := by
+        refine ⟨hc2, by rw [p8, hkv], by rw [p9, hkv], fun _ => ⟨by rw [p3]; exact hfs1, fun h0 => ?_, ?_⟩⟩
+        · have := hfab h0
+          simpa [getFabric, p1] using this
+        · rw [p4, p5]; exact hnets
+      simp only [hp]
+      cases b <;> (simp only []; exact ⟨fin.1, fin.2.1, fin.2.2.1, fun _ => fin.2.2.2 triv⟩)
 
-theorem windowTimeout_coh (n : Node) (hc : Coh n) : Coh (windowTimeout n) := by
+theorem windowTimeout_cohD (n : Node) (D : List Nat) (hc : CohD n D) : CohD (windowTimeout n) D := by
   unfold windowTimeout
   split
   · split
-    · exact coh_congr rfl rfl rfl rfl rfl rfl hc
+    · exact cohD_congr triv triv triv triv triv triv hc
     · exact hc
   · exact hc
 
-theorem windowTimeout_failIn (n : Node) : (windowTimeout n).failIn = n.failIn := by
-  unfold windowTimeout; split <;> (try split) <;> rfl
-
 /-- the prologue of every command (`check_timeouts`) keeps coherence -/
-theorem checkTimeouts_coh (cfg : Cfg) (n : Node) (sid : Option Nat) (hc : Coh n) (hf : n.failIn = 0) :
-    Coh (checkTimeouts cfg n sid).1 ∧ (checkTimeouts cfg n sid).1.failIn = 0 := by
+theorem checkTimeouts_cohD (cfg : Cfg) (n : Node) (D : List Nat) (sid : Option Nat) (hc : CohD n D) :
+    CohD (checkTimeouts cfg n sid).1 D := by
   unfold checkTimeouts
   cases hfs : n.fs with
-  | none => simp only []; exact ⟨windowTimeout_coh n hc, by rw [windowTimeout_failIn, hf]⟩
+  | none => simp only []; exact windowTimeout_cohD n D hc
   | some a =>
     simp only []
     by_cases ht : n.now ≥ a.armedAt + a.timeout
     · simp only [ht, if_true]
-      have ⟨h1, h2⟩ := expireAndPurge_coh cfg n a (expSid n sid) hc hfs hf
+      have h1 := (expireAndPurge_cohD cfg n D a (expSid n sid) hc hfs).1
       have heq : (expireAndPurgeLenient cfg n a (expSid n sid)).1 = (expireAndPurge cfg n a (expSid n sid)).1 := rfl
       cases he : (expireAndPurgeLenient cfg n a (expSid n sid)).2 with
-      | some e => simp only []; rw [heq]; exact ⟨h1, h2⟩
-      | none =>
-        simp only []; rw [heq]
-        exact ⟨windowTimeout_coh _ h1, by rw [windowTimeout_failIn]; exact h2⟩
+      | some e => simp only []; rw [heq]; exact h1
+      | none => simp only []; rw [heq]; exact windowTimeout_cohD _ D h1
     · simp only [ht, if_false]
-      exact ⟨windowTimeout_coh n hc, by rw [windowTimeout_failIn, hf]⟩
+      exact windowTimeout_cohD n D hc
 
-theorem coh_congr2 {n n' : Node} (h1 : n'.fabrics = n.fabrics) (h2 : exemptIdx n' = exemptIdx n)
-    (h2' : n'.fs = none → n.fs = none)
-    (h3 : n'.nets = n.nets) (h4 : n'.managed = n.managed) (h5 : n'.kv.fabs = n.kv.fabs)
-    (h6 : n'.kv.nets = n.kv.nets) (h : Coh n) : Coh n' := by
-  refine ⟨fun i hi he => ?_, fun hn => ?_⟩
-  · have := h.1 i hi (by rw [← h2]; exact he)
-    simpa [getFabric, kvF, h1, h5] using this
-  · have := h.2 (h2' hn)
-    simpa [kvNets, h3, h4, h6] using this
-
-/-- arming (or re-arming, or any change of the fail-safe context that keeps its fabric) keeps coherence -/
-theorem coh_arm {n : Node} (a : Armed) (bc : Nat) (hc : Coh n)
-    (h : n.fs = none ∨ ∃ b, n.fs = some b ∧ b.fab = a.fab) :
-    Coh { n with fs := some a, bc := bc } := by
-  refine ⟨fun i hi he => ?_, fun hn => by simp at hn⟩
-  have he' : i ≠ a.fab := by simpa [exemptIdx] using he
-  rcases h with h | ⟨b, hb, hab⟩
-  · have := (agree_of_coh_idle hc h).1 i hi
-    simpa [getFabric, kvF] using this
-  · have := hc.1 i hi (by simp [exemptIdx, hb, hab]; exact he')
-    simpa [getFabric, kvF] using this
-
-theorem coh_staged {n : Node} (st : Nat) (hc : Coh n) : Coh { n with staged := st } :=
-  coh_congr rfl rfl rfl rfl rfl rfl hc
-
-theorem coh_window {n : Node} (w : Option Window) (hc : Coh n) : Coh { n with window := w } :=
-  coh_congr rfl rfl rfl rfl rfl rfl hc
-
-/-- network changes are only made while the fail-safe is armed -/
-theorem coh_nets_armed {n : Node} (l : List Nat) (m : Bool) (hc : Coh n) (ha : n.fs ≠ none) :
-    Coh { n with nets := l, managed := m } := by
-  refine ⟨fun i hi he => ?_, fun hn => absurd hn ha⟩
-  have := hc.1 i hi (by simpa [exemptIdx] using he)
-  simpa [getFabric, kvF] using this
-
-theorem checkArmed_none {n : Node} {mode : Mode} (h : checkArmed n mode = none) :
-    ∃ a, n.fs = some a ∧ a.fab = mode.fab := by
-  unfold checkArmed at h
+theorem expire_cohD (cfg : Cfg) (n : Node) (D : List Nat) (exp : Option Nat) (hc : CohD n D) :
+    CohD (expire cfg n exp).1 D := by
+  unfold expire
   cases hfs : n.fs with
-  | none => simp [hfs] at h
-  | some a =>
-    simp only [hfs] at h
-    by_cases hab : a.fab = mode.fab
-    · exact ⟨a, rfl, hab⟩
-    · simp [hab] at h
+  | none => exact hc
+  | some a => exact (expireAndPurge_cohD cfg n D a exp hc hfs).1
 
-/-- a fabric-scoped write of fabric `f.idx`: the new record replaces the old one in the node and -
-unless the fail-safe is armed for this fabric - in the store -/
-theorem coh_fabric_write (n : Node) (f f' : Fabric) (hidx : f'.idx = f.idx) (hne : f.idx ≠ 0)
-    (hget : getFabric n f.idx = some f) (hc : Coh n) (hf : n.failIn = 0) :
-    let n1 := setFabric n f'
-    let r := if armedFor n1 f.idx then ok n1
-      else match storeFabric n1 f' with
-        | (n, true) => ok n
-        | (n, false) => (n, .err "NoSpace")
-    Coh r.1 ∧ r.1.failIn = 0 := by
-  intro n1 r
-  have hn1 : n1 = setFabric n f' := rfl
-  have hfs1 : n1.fs = n.fs := rfl
-  have hkv1 : n1.kv = n.kv := rfl
-  have hfi1 : n1.failIn = 0 := hf
-  have hget1 : ∀ i, getFabric n1 i = if i = f.idx then some f' else getFabric n i := by
-    intro i
-    rw [hn1, getFabric_setFabric, hidx]
-    by_cases hi : i = f.idx
-    · subst hi; simp [hget]
-    · simp [hi]
-  by_cases harm : armedFor n1 f.idx = true
-  · have hr : r = ok n1 := by simp [r, harm]
-    rw [hr]
-    refine ⟨⟨fun i hi he => ?_, fun hn => ?_⟩, hfi1⟩
-    · have hex : exemptIdx n1 = f.idx := by
-        unfold armedFor at harm
-        unfold exemptIdx
-        cases h : n1.fs with
-        | none => simp [h] at harm
-        | some a => simp [h] at harm; simp [harm]
-      have hif : i ≠ f.idx := by rw [← hex]; exact he
-      simp only [ok]
-      rw [hget1, if_neg hif, hkv1]
-      exact hc.1 i hi (by
-        have : exemptIdx n = exemptIdx n1 := by simp [exemptIdx, hfs1]
-        rw [this]; exact he)
-    · exfalso
-      unfold armedFor at harm
-      simp only [ok] at hn
-      simp [hn] at harm
-  · have hstore := storeFabric_nofault n1 f' hfi1
-    have hr : r = ok (kvCommit n1 (n1.kv.putFabric f')) := by simp [r, harm, hstore]
-    rw [hr]
-    refine ⟨⟨fun i hi he => ?_, fun hn => ?_⟩, hfi1⟩
-    · simp only [ok, kvCommit]
-      show getFabric n1 i = kvF (n1.kv.putFabric f') i
-      rw [hget1, kvF_putFabric, hidx, hkv1]
-      by_cases hif : i = f.idx
-      · simp [hif]
-      · simp only [hif, if_false]
-        have hne' : i ≠ exemptIdx n := by
-          -- not armed for `f.idx`; the exempt index of `n` is the one of the result
-          have : exemptIdx (ok (kvCommit n1 (n1.kv.putFabric f'))).1 = exemptIdx n := by
-            simp [ok, kvCommit, exemptIdx, hfs1]
-          rw [← this]; exact he
-        exact hc.1 i hi hne'
-    · simp only [ok, kvCommit] at hn ⊢
-      have := hc.2 (by rw [← hfs1]; exact hn)
-      simpa [kvNets, KV.putFabric, hkv1, hn1, setFabric] using this
 
-theorem getFabric_idx {n : Node} {i : Nat} {f : Fabric} (h : getFabric n i = some f) : f.idx = i := by
-  simpa using List.find?_some h
+/-! ### the commands -/
 
-theorem sessOp_acl_coh (cfg : Cfg) (n : Node) (sid s v : Nat) (mode : Mode) (hc : Coh n) (hf : n.failIn = 0) :
-    Coh (sessOp cfg n sid mode (.acl s v)).1 ∧ (sessOp cfg n sid mode (.acl s v)).1.failIn = 0 := by
+/-- what a command adds to the dirty set: the fabric of a fabric-scoped write that was answered
+with a store error -/
+def dirtyOp (D : List Nat) (mode : Mode) (op : Op) (st : Status) : List Nat :=
+  match op with
+  | .acl _ _ | .grp _ _ | .label _ _ | .fwrite _ => if st = .err "NoSpace" then mode.fab :: D else D
+  | _ => D
+
+theorem dirty_keep (D : List Nat) (j : Nat) (e : String) (he : e ≠ "NoSpace") :
+    (if Status.err e = Status.err "NoSpace" then j :: D else D) = D := by
+  simp [he]
+
+theorem sessOp_acl_cohD (cfg : Cfg) (n : Node) (D : List Nat) (sid s v : Nat) (mode : Mode) (hc : CohD n D) :
+    CohD (sessOp cfg n sid mode (.acl s v)).1 (dirtyOp D mode (.acl s v) (sessOp cfg n sid mode (.acl s v)).2) := by
+  simp only [dirtyOp]
   unfold sessOp
   by_cases h0 : mode.fab = 0
-  · simp only [h0, if_true]; exact ⟨hc, hf⟩
+  · simp only [h0, if_true]; rw [dirty_keep _ _ _ (by decide)]; exact hc
   · simp only [h0, if_false]
     cases hg : getFabric n mode.fab with
-    | none => exact ⟨hc, hf⟩
+    | none => simp only []; rw [dirty_keep _ _ _ (by decide)]; exact hc
     | some f =>
       have hidx := getFabric_idx hg
       simp only []
       split
-      · exact ⟨hc, hf⟩
-      · exact coh_fabric_write n f { f with acl := f.acl ++ [v] } rfl (by omega) (by rw [hidx]; exact hg) hc hf
+      · rw [dirty_keep _ _ _ (by decide)]; exact hc
+      · have := cohD_fabric_write n D f { f with acl := f.acl ++ [v] } rfl (by omega) (by rw [hidx]; exact hg) hc
+        have hD : mode.fab :: D = f.idx :: D := by rw [hidx]
+        rw [hD]
+        exact this
 
-theorem sessOp_grp_coh (cfg : Cfg) (n : Node) (sid s v : Nat) (mode : Mode) (hc : Coh n) (hf : n.failIn = 0) :
-    Coh (sessOp cfg n sid mode (.grp s v)).1 ∧ (sessOp cfg n sid mode (.grp s v)).1.failIn = 0 := by
+theorem sessOp_grp_cohD (cfg : Cfg) (n : Node) (D : List Nat) (sid s v : Nat) (mode : Mode) (hc : CohD n D) :
+    CohD (sessOp cfg n sid mode (.grp s v)).1 (dirtyOp D mode (.grp s v) (sessOp cfg n sid mode (.grp s v)).2) := by
+  simp only [dirtyOp]
   unfold sessOp
   by_cases h0 : mode.fab = 0
-  · simp only [h0, if_true]; exact ⟨hc, hf⟩
+  · simp only [h0, if_true]; rw [dirty_keep _ _ _ (by decide)]; exact hc
   · simp only [h0, if_false]
     cases hg : getFabric n mode.fab with
-    | none => exact ⟨hc, hf⟩
+    | none => simp only []; rw [dirty_keep _ _ _ (by decide)]; exact hc
     | some f =>
       have hidx := getFabric_idx hg
       simp only []
       split
-      · exact ⟨hc, hf⟩
-      · exact coh_fabric_write n f (if f.grp.contains v then f else { f with grp := f.grp ++ [v] })
-          (by split <;> rfl) (by omega) (by rw [hidx]; exact hg) hc hf
+      · rw [dirty_keep _ _ _ (by decide)]; exact hc
+      · have := cohD_fabric_write n D f (if f.grp.contains v then f else { f with grp := f.grp ++ [v] })
+          (by split <;> rfl) (by omega) (by rw [hidx]; exact hg) hc
+        have hD : mode.fab :: D = f.idx :: D := by rw [hidx]
+        rw [hD]
+        exact this
 
-theorem sessOp_label_coh (cfg : Cfg) (n : Node) (sid s v : Nat) (mode : Mode) (hc : Coh n) (hf : n.failIn = 0) :
-    Coh (sessOp cfg n sid mode (.label s v)).1 ∧ (sessOp cfg n sid mode (.label s v)).1.failIn = 0 := by
+theorem sessOp_label_cohD (cfg : Cfg) (n : Node) (D : List Nat) (sid s v : Nat) (mode : Mode) (hc : CohD n D) :
+    CohD (sessOp cfg n sid mode (.label s v)).1 (dirtyOp D mode (.label s v) (sessOp cfg n sid mode (.label s v)).2) := by
+  simp only [dirtyOp]
   unfold sessOp
   by_cases h0 : mode.fab = 0
-  · simp only [h0, if_true]; exact ⟨hc, hf⟩
+  · simp only [h0, if_true]; rw [dirty_keep _ _ _ (by decide)]; exact hc
   · simp only [h0, if_false]
     split
-    · exact ⟨hc, hf⟩
+    · rw [dirty_keep _ _ _ (by decide)]; exact hc
     · cases hg : getFabric n mode.fab with
-      | none => exact ⟨hc, hf⟩
+      | none => simp only []; rw [dirty_keep _ _ _ (by decide)]; exact hc
       | some f =>
         have hidx := getFabric_idx hg
-        exact coh_fabric_write n f { f with label := v } rfl (by omega) (by rw [hidx]; exact hg) hc hf
+        have := cohD_fabric_write n D f { f with label := v } rfl (by omega) (by rw [hidx]; exact hg) hc
+        have hD : mode.fab :: D = f.idx :: D := by rw [hidx]
+        rw [hD]
+        exact this
 
-theorem sessOp_openW_coh (cfg : Cfg) (n : Node) (sid s : Nat) (mode : Mode) (hc : Coh n) (hf : n.failIn = 0) :
-    Coh (sessOp cfg n sid mode (.openW s)).1 ∧ (sessOp cfg n sid mode (.openW s)).1.failIn = 0 := by
+theorem sessOp_fwrite_cohD (cfg : Cfg) (n : Node) (D : List Nat) (sid s : Nat) (mode : Mode) (hc : CohD n D) :
+    CohD (sessOp cfg n sid mode (.fwrite s)).1 (dirtyOp D mode (.fwrite s) (sessOp cfg n sid mode (.fwrite s)).2) := by
+  simp only [dirtyOp]
+  unfold sessOp
+  by_cases h0 : mode.fab = 0
+  · simp only [h0, if_true]; rw [dirty_keep _ _ _ (by decide)]; exact hc
+  · simp only [h0, if_false]
+    cases hg : getFabric n mode.fab with
+    | none => simp only []; rw [dirty_keep _ _ _ (by decide)]; exact hc
+    | some f =>
+      have hidx := getFabric_idx hg
+      have := cohD_fabric_write n D f f rfl (by omega) (by rw [hidx]; exact hg) hc
+      have hD : mode.fab :: D = f.idx :: D := by rw [hidx]
+      rw [hD]
+      exact this
+
+theorem sessOp_openW_cohD (cfg : Cfg) (n : Node) (D : List Nat) (sid s : Nat) (mode : Mode) (hc : CohD n D) :
+    CohD (sessOp cfg n sid mode (.openW s)).1 D := by
   unfold sessOp
   simp only []
   split
-  · exact ⟨windowTimeout_coh n hc, by rw [windowTimeout_failIn, hf]⟩
-  · exact ⟨coh_window _ (windowTimeout_coh n hc), by simp [ok, windowTimeout_failIn, hf]⟩
+  · exact windowTimeout_cohD n D hc
+  · exact cohD_congr triv triv triv triv triv triv (windowTimeout_cohD n D hc)
 
-theorem expire_coh (cfg : Cfg) (n : Node) (exp : Option Nat) (hc : Coh n) (hf : n.failIn = 0) :
-    Coh (expire cfg n exp).1 ∧ (expire cfg n exp).1.failIn = 0 := by
-  unfold expire
-  cases hfs : n.fs with
-  | none => exact ⟨hc, hf⟩
-  | some a => exact expireAndPurge_coh cfg n a exp hc hfs hf
+theorem sessOp_bcw_cohD (cfg : Cfg) (n : Node) (D : List Nat) (sid s v : Nat) (mode : Mode) (hc : CohD n D) :
+    CohD (sessOp cfg n sid mode (.bcw s v)).1 D := by
+  unfold sessOp
+  exact cohD_congr triv triv triv triv triv triv hc
 
-theorem sessOp_arm_coh (cfg : Cfg) (n : Node) (sid s secs : Nat) (mode : Mode) (hc : Coh n) (hf : n.failIn = 0) :
-    Coh (sessOp cfg n sid mode (.arm s secs)).1 ∧ (sessOp cfg n sid mode (.arm s secs)).1.failIn = 0 := by
+theorem sessOp_arm_cohD (cfg : Cfg) (n : Node) (D : List Nat) (sid s secs : Nat) (mode : Mode) (hc : CohD n D) :
+    CohD (sessOp cfg n sid mode (.arm s secs)).1 D := by
   unfold sessOp
   by_cases h0 : secs = 0
   · simp only [h0, if_true]
-    have := expire_coh cfg n (some sid) hc hf
+    have := expire_cohD cfg n D (some sid) hc
     rcases hr : expire cfg n (some sid) with ⟨n1, e⟩
     rw [hr] at this
     cases e <;> exact this
@@ -486,267 +690,350 @@ theorem sessOp_arm_coh (cfg : Cfg) (n : Node) (sid s secs : Nat) (mode : Mode) (
     | none =>
       simp only []
       split
-      · exact ⟨hc, hf⟩
-      · exact ⟨coh_arm _ _ hc (Or.inl hfs), hf⟩
+      · exact hc
+      · have := cohD_setfs (n := n) { fab := mode.fab, flags := {}, timeout := secs, armedAt := n.now } secs n.staged hc
+          (Or.inl ⟨hfs, rfl⟩)
+        exact cohD_congr triv triv triv triv triv triv this
     | some a =>
       simp only []
       split
-      · exact ⟨hc, hf⟩
-      · exact ⟨coh_arm _ _ hc (Or.inr ⟨a, hfs, rfl⟩), hf⟩
+      · exact hc
+      · have := cohD_setfs (n := n) { a with armedAt := n.now, timeout := secs } secs n.staged hc
+          (Or.inr ⟨a, hfs, rfl, id, id, id⟩)
+        exact cohD_congr triv triv triv triv triv triv this
 
-theorem sessOp_csr_coh (cfg : Cfg) (n : Node) (sid s : Nat) (upd : Bool) (mode : Mode) (hc : Coh n) (hf : n.failIn = 0) :
-    Coh (sessOp cfg n sid mode (.csr s upd)).1 ∧ (sessOp cfg n sid mode (.csr s upd)).1.failIn = 0 := by
+theorem sessOp_csr_cohD (cfg : Cfg) (n : Node) (D : List Nat) (sid s : Nat) (upd : Bool) (mode : Mode) (hc : CohD n D) :
+    CohD (sessOp cfg n sid mode (.csr s upd)).1 D := by
   unfold sessOp
   cases hca : checkArmed n mode with
-  | some e => exact ⟨hc, hf⟩
+  | some e => exact hc
   | none =>
     simp only []
     split
-    · exact ⟨hc, hf⟩
+    · exact hc
     · cases hfs : n.fs with
-      | none => exact ⟨hc, hf⟩
+      | none => exact hc
       | some a =>
         simp only []
         split
-        · exact ⟨hc, hf⟩
-        · have : Coh { n with fs := some { a with flags := (if upd = true then { a.flags with updCsr := true } else { a.flags with addCsr := true }) }, bc := n.bc } :=
-            coh_arm _ _ hc (Or.inr ⟨a, hfs, rfl⟩)
-          exact ⟨this, hf⟩
+        · exact hc
+        · have := cohD_setfs (n := n)
+            { a with flags := (if upd = true then { a.flags with updCsr := true } else { a.flags with addCsr := true }) }
+            n.bc n.staged hc (Or.inr ⟨a, hfs, rfl, id, by split <;> exact id, by split <;> exact id⟩)
+          exact cohD_congr triv triv triv triv triv triv this
 
-theorem sessOp_root_coh (cfg : Cfg) (n : Node) (sid s ca : Nat) (mode : Mode) (hc : Coh n) (hf : n.failIn = 0) :
-    Coh (sessOp cfg n sid mode (.root s ca)).1 ∧ (sessOp cfg n sid mode (.root s ca)).1.failIn = 0 := by
+theorem sessOp_root_cohD (cfg : Cfg) (n : Node) (D : List Nat) (sid s ca : Nat) (mode : Mode) (hc : CohD n D) :
+    CohD (sessOp cfg n sid mode (.root s ca)).1 D := by
   unfold sessOp
   cases hca : checkArmed n mode with
-  | some e => exact ⟨hc, hf⟩
+  | some e => exact hc
   | none =>
     simp only []
     cases hfs : n.fs with
-    | none => exact ⟨hc, hf⟩
+    | none => exact hc
     | some a =>
       simp only []
       split
-      · exact ⟨hc, hf⟩
-      · have h1 : Coh { n with staged := ca } := coh_staged ca hc
-        have : Coh { { n with staged := ca } with fs := some { a with flags := { a.flags with root := true } }, bc := n.bc } :=
-          coh_arm _ _ h1 (Or.inr ⟨a, hfs, rfl⟩)
-        exact ⟨this, hf⟩
+      · exact hc
+      · have := cohD_setfs (n := n) { a with flags := { a.flags with root := true } } n.bc ca hc
+          (Or.inr ⟨a, hfs, rfl, id, id, id⟩)
+        exact cohD_congr triv triv triv triv triv triv this
 
-theorem sessOp_net_coh (cfg : Cfg) (n : Node) (sid s v : Nat) (mode : Mode) (hc : Coh n) (hf : n.failIn = 0) :
-    Coh (sessOp cfg n sid mode (.net s v)).1 ∧ (sessOp cfg n sid mode (.net s v)).1.failIn = 0 := by
+theorem sessOp_net_cohD (cfg : Cfg) (n : Node) (D : List Nat) (sid s v : Nat) (mode : Mode) (hc : CohD n D) :
+    CohD (sessOp cfg n sid mode (.net s v)).1 D := by
   unfold sessOp
   cases hca : checkArmed n mode with
-  | some e => exact ⟨hc, hf⟩
+  | some e => exact hc
   | none =>
     have ⟨a, hfs, _⟩ := checkArmed_none hca
     have hne : n.fs ≠ none := by rw [hfs]; simp
     simp only []
     split
-    · exact ⟨coh_nets_armed n.nets false hc hne, hf⟩
+    · exact cohD_nets_armed n.nets false hc hne
     · split
-      · exact ⟨hc, hf⟩
-      · exact ⟨coh_nets_armed _ false hc hne, hf⟩
+      · exact hc
+      · exact cohD_nets_armed _ false hc hne
 
-theorem sessOp_rmnet_coh (cfg : Cfg) (n : Node) (sid s v : Nat) (mode : Mode) (hc : Coh n) (hf : n.failIn = 0) :
-    Coh (sessOp cfg n sid mode (.rmnet s v)).1 ∧ (sessOp cfg n sid mode (.rmnet s v)).1.failIn = 0 := by
+theorem sessOp_rmnet_cohD (cfg : Cfg) (n : Node) (D : List Nat) (sid s v : Nat) (mode : Mode) (hc : CohD n D) :
+    CohD (sessOp cfg n sid mode (.rmnet s v)).1 D := by
   unfold sessOp
   cases hca : checkArmed n mode with
-  | some e => exact ⟨hc, hf⟩
+  | some e => exact hc
   | none =>
     have ⟨a, hfs, _⟩ := checkArmed_none hca
     have hne : n.fs ≠ none := by rw [hfs]; simp
     simp only []
     split
-    · exact ⟨coh_nets_armed _ false hc hne, hf⟩
-    · exact ⟨hc, hf⟩
+    · exact cohD_nets_armed _ false hc hne
+    · exact hc
 
-theorem sessOp_revoke_coh (cfg : Cfg) (n : Node) (sid s : Nat) (mode : Mode) (hc : Coh n) (hf : n.failIn = 0) :
-    Coh (sessOp cfg n sid mode (.revoke s)).1 ∧ (sessOp cfg n sid mode (.revoke s)).1.failIn = 0 := by
+theorem sessOp_revoke_cohD (cfg : Cfg) (n : Node) (D : List Nat) (sid s : Nat) (mode : Mode) (hc : CohD n D) :
+    CohD (sessOp cfg n sid mode (.revoke s)).1 D := by
   unfold sessOp
   simp only []
-  have := expire_coh cfg n (some sid) hc hf
+  have := expire_cohD cfg n D (some sid) hc
   rcases hr : expire cfg n (some sid) with ⟨n1, e⟩
   rw [hr] at this
   cases e with
   | some e => exact this
-  | none => exact ⟨coh_window none this.1, this.2⟩
+  | none => exact cohD_congr triv triv triv triv triv triv this
 
-theorem kvF_none_of_not_has {kv : KV} {i : Nat} (h : kv.hasFabric i = false) : kvF kv i = none := by
-  unfold KV.hasFabric at h
-  unfold kvF
-  rw [List.find?_eq_none]
-  intro f hfm
-  have := (List.any_eq_false.mp h) f hfm
-  simpa using this
-
-theorem sessOp_rmfab_coh (cfg : Cfg) (n : Node) (sid s idx : Nat) (mode : Mode) (hc : Coh n) (hf : n.failIn = 0) :
-    Coh (sessOp cfg n sid mode (.rmfab s idx)).1 ∧ (sessOp cfg n sid mode (.rmfab s idx)).1.failIn = 0 := by
+theorem sessOp_rmfab_cohD (cfg : Cfg) (n : Node) (D : List Nat) (sid s idx : Nat) (mode : Mode) (hc : CohD n D) :
+    CohD (sessOp cfg n sid mode (.rmfab s idx)).1 D := by
   unfold sessOp
   by_cases h0 : idx = 0
-  · simp only [h0, if_true]; exact ⟨hc, hf⟩
+  · simp only [h0, if_true]; exact hc
   · simp only [h0, if_false]
     by_cases hh : hasFabric n idx = true
-    · simp only [hh, if_true, decide_not]
-      -- the node after the memory part
-      generalize hn1 : ({ n with fabrics := n.fabrics.filter (fun f => !decide (f.idx = idx)),
-                                 sessions := removeForFabric n.sessions idx (if mode.fab = idx then some sid else none) } : Node) = n1
-      have hf1 : n1.failIn = 0 := by rw [← hn1]; exact hf
-      have ⟨p1, p2, p3, p4, p5, p6, p7, p8, _⟩ := purgeResum_nofault n1 idx hf1
-      rcases hp : purgeResum n1 idx with ⟨n2, b⟩
-      rw [hp] at p1 p2 p3 p4 p5 p6 p7 p8
-      simp only at p1 p2 p3 p4 p5 p6 p7 p8
-      subst p1
-      simp only []
-      have hrm := removeFabricKey_nofault n2 idx p2
-      rw [hrm]
-      simp only [ok]
-      have hfab2 : n2.fabrics = n.fabrics.filter (fun f => !decide (f.idx = idx)) := by rw [p3, ← hn1]
-      have hfs2 : n2.fs = n.fs := by rw [p4, ← hn1]
-      have hnets2 : n2.nets = n.nets := by rw [p5, ← hn1]
-      have hman2 : n2.managed = n.managed := by rw [p6, ← hn1]
-      have hkf2 : n2.kv.fabs = n.kv.fabs := by rw [p7, ← hn1]
-      have hkn2 : n2.kv.nets = n.kv.nets := by rw [p8, ← hn1]
-      have hget2 : ∀ i, getFabric n2 i = if i = idx then none else getFabric n i := by
-        intro i; simp only [getFabric, hfab2]; exact find_filter_neB n.fabrics idx i
-      have hkvF2 : ∀ i, kvF n2.kv i = kvF n.kv i := by intro i; simp [kvF, hkf2]
-      by_cases hk : n2.kv.hasFabric idx = true
-      · simp only [hk, if_true]
-        refine ⟨⟨fun i hi he => ?_, fun hn => ?_⟩, p2⟩
-        · show getFabric n2 i = kvF (n2.kv.delFabric idx) i
-          rw [hget2, kvF_delFabric, hkvF2]
-          by_cases hii : i = idx
-          · simp [hii]
-          · simp only [hii, if_false]
-            exact hc.1 i hi (by
-              have : exemptIdx n = exemptIdx (kvCommit n2 (n2.kv.delFabric idx)) := by
-                simp [exemptIdx, kvCommit, hfs2]
-              rw [this]; exact he)
-        · have := hc.2 (by rw [← hfs2]; exact hn)
-          simpa [kvCommit, kvNets, KV.delFabric, hnets2, hman2, hkn2] using this
-      · have hk' : n2.kv.hasFabric idx = false := by simpa using hk
-        simp only [hk', Bool.false_eq_true, if_false]
-        refine ⟨⟨fun i hi he => ?_, fun hn => ?_⟩, p2⟩
-        · rw [hget2, hkvF2]
-          by_cases hii : i = idx
-          · subst hii
-            have := kvF_none_of_not_has hk'
-            rw [hkvF2] at this
-            simp [this]
-          · simp only [hii, if_false]
-            exact hc.1 i hi (by
-              have : exemptIdx n = exemptIdx n2 := by simp [exemptIdx, hfs2]
-              rw [this]; exact he)
-        · have := hc.2 (by rw [← hfs2]; exact hn)
-          simpa [kvNets, hnets2, hman2, hkn2] using this
-    · simp only [hh, Bool.false_eq_true, if_false]; exact ⟨hc, hf⟩
+    · simp only [hh, if_true]
+      have ⟨p1, _, p3, p4, p5, _, _, p8, p9, _⟩ := purgeResum_spec n idx
+      rcases hp : purgeResum n idx with ⟨n2, b⟩
+      rw [hp] at p1 p3 p4 p5 p8 p9
+      simp only at p1 p3 p4 p5 p8 p9
+      have hc2 : CohD n2 D := cohD_congr p1 p3 p4 p5 p8 p9 hc
+      cases b with
+      | false => exact hc2
+      | true =>
+        simp only []
+        have ⟨hfr, hnets, _, hst⟩ := removeFabricKey_spec n2 idx
+        rcases hr : removeFabricKey n2 idx with ⟨n3, b3⟩
+        rw [hr] at hfr hnets hst
+        simp only at hfr hnets hst
+        rcases hst with ⟨hb, hkvF, _⟩ | ⟨hb, hkv, _⟩
+        · subst hb
+          simp only [ok]
+          have hex : exemptIdx n3 = exemptIdx n2 := by simp [exemptIdx, hfr.fs]
+          have hget : ∀ i, getFabric n3 i = getFabric n2 i := by intro i; simp only [getFabric, hfr.fabrics]
+          refine ⟨fun i hi he hd => ?_, fun hn => ?_, fun a ha h0' h1 h2 h3 => ?_⟩
+          · show List.find? (fun f => decide (f.idx = i)) (List.filter (fun f => decide (f.idx ≠ idx)) n3.fabrics) = kvF n3.kv i
+            rw [find_filter_ne, hkvF]
+            by_cases hii : i = idx
+            · simp [hii]
+            · simp only [hii, if_false]
+              have := hc2.1 i hi (by rw [← hex]; exact he) hd
+              rw [← hget] at this
+              exact this
+          · have := hc2.2.1 (by rw [← hfr.fs]; exact hn)
+            show (n3.nets, n3.managed) = kvNets n3.kv
+            rw [hfr.nets, hfr.managed, this]
+            simp [kvNets, hnets]
+          · show _ ∨ List.find? (fun f => decide (f.idx = a.fab)) (List.filter (fun f => decide (f.idx ≠ idx)) n3.fabrics) = kvF n3.kv a.fab
+            rw [find_filter_ne, hkvF]
+            by_cases hii : a.fab = idx
+            · right; simp [hii]
+            · simp only [hii, if_false]
+              rcases hc2.2.2 a (by rw [← hfr.fs]; exact ha) h0' h1 h2 h3 with hm | he
+              · exact Or.inl hm
+              · right; rw [← hget] at he; exact he
+        · subst hb
+          exact cohD_frame hfr (by rw [hkv]) (by rw [hkv]) hc2
+    · simp only [hh, Bool.false_eq_true, if_false]; exact hc
 
-theorem sessOp_updnoc_coh (cfg : Cfg) (n : Node) (sid s node ser : Nat) (mode : Mode) (hc : Coh n) (hf : n.failIn = 0) :
-    Coh (sessOp cfg n sid mode (.updnoc s node ser)).1 ∧ (sessOp cfg n sid mode (.updnoc s node ser)).1.failIn = 0 := by
+theorem sessOp_updnoc_cohD (cfg : Cfg) (n : Node) (D : List Nat) (sid s node ser : Nat) (mode : Mode) (hc : CohD n D) :
+    CohD (sessOp cfg n sid mode (.updnoc s node ser)).1 D := by
   unfold sessOp
   cases hca : checkArmed n mode with
-  | some e => exact ⟨hc, hf⟩
+  | some e => exact hc
   | none =>
     have ⟨a0, hfs0, hab0⟩ := checkArmed_none hca
     simp only []
     split
-    · exact ⟨hc, hf⟩
+    · exact hc
     · simp only [hfs0]
       split
-      · exact ⟨hc, hf⟩
+      · exact hc
       · cases hg : getFabric n mode.fab with
-        | none => exact ⟨hc, hf⟩
+        | none => exact hc
         | some f =>
           have hidx := getFabric_idx hg
           simp only [ok]
-          refine ⟨⟨fun i hi he => ?_, fun hn => by simp at hn⟩, hf⟩
-          have hif : i ≠ f.idx := by simpa [exemptIdx] using he
-          show getFabric (setFabric n { f with node := node, ser := ser }) i = kvF n.kv i
-          rw [getFabric_setFabric]
-          simp only [hif, if_false]
-          exact hc.1 i hi (by simp [exemptIdx, hfs0, hab0, ← hidx]; exact hif)
+          refine ⟨fun i hi he hd => ?_, fun hn => by simp at hn, fun a ha _ _ h2 _ => ?_⟩
+          · have hif : i ≠ f.idx := by simpa [exemptIdx] using he
+            show getFabric (setFabric n { f with node := node, ser := ser }) i = kvF n.kv i
+            rw [getFabric_setFabric]
+            simp only [hif, if_false]
+            exact hc.1 i hi (by simp [exemptIdx, hfs0, hab0, ← hidx]; exact hif) hd
+          · have : a = { a0 with fab := f.idx, flags := { a0.flags with updNoc := true } } := by simpa using ha.symm
+            subst this
+            simp at h2
 
-theorem sessOp_complete_agree (cfg : Cfg) (n : Node) (sid s : Nat) (mode : Mode) (hc : Coh n) (hf : n.failIn = 0) :
-    (Coh (sessOp cfg n sid mode (.complete s)).1 ∧ (sessOp cfg n sid mode (.complete s)).1.failIn = 0) ∧
+theorem sessOp_complete_cohD (cfg : Cfg) (n : Node) (D : List Nat) (sid s : Nat) (mode : Mode) (hc : CohD n D) :
+    CohD (sessOp cfg n sid mode (.complete s)).1 D ∧
     ((sessOp cfg n sid mode (.complete s)).2 = .ok →
-      Agree (sessOp cfg n sid mode (.complete s)).1 ∧ (sessOp cfg n sid mode (.complete s)).1.fs = none) := by
+      (sessOp cfg n sid mode (.complete s)).1.fs = none ∧
+      getFabric (sessOp cfg n sid mode (.complete s)).1 mode.fab = kvF (sessOp cfg n sid mode (.complete s)).1.kv mode.fab ∧
+      (getFabric (sessOp cfg n sid mode (.complete s)).1 mode.fab).isSome = true) := by
   unfold sessOp
   cases hca : checkArmed n mode with
-  | some e => exact ⟨⟨hc, hf⟩, by simp⟩
+  | some e => exact ⟨hc, by simp⟩
   | none =>
     have ⟨a0, hfs0, hab0⟩ := checkArmed_none hca
     simp only []
     split
-    · exact ⟨⟨hc, hf⟩, by simp⟩
+    · exact ⟨hc, by simp⟩
     · cases hg : getFabric n mode.fab with
-      | none => exact ⟨⟨hc, hf⟩, by simp⟩
+      | none => exact ⟨hc, by simp⟩
       | some f =>
         have hidx := getFabric_idx hg
         simp only []
-        generalize hn1 : ({ n with fs := none, bc := 0, window := none, sessions := removePase n.sessions none } : Node) = n1
-        have hf1 : n1.failIn = 0 := by rw [← hn1]; exact hf
-        rw [storeFabric_nofault n1 f hf1]
-        simp only []
-        generalize hn2 : ({ kvCommit n1 (n1.kv.putFabric f) with managed := true } : Node) = n2
-        have hf2 : n2.failIn = 0 := by rw [← hn2]; exact hf1
-        rw [storeNets_nofault n2 hf2]
-        simp only [ok]
-        have hag : Agree (kvCommit n2 { n2.kv with nets := some (n2.nets, n2.managed) }) := by
-          refine ⟨fun i hi => ?_, ?_⟩
-          · show getFabric n2 i = kvF { n2.kv with nets := some (n2.nets, n2.managed) } i
-            have h1 : getFabric n2 i = getFabric n i := by rw [← hn2, ← hn1]; rfl
-            have h2 : kvF { n2.kv with nets := some (n2.nets, n2.managed) } i = kvF (n.kv.putFabric f) i := by
-              rw [← hn2, ← hn1]; rfl
-            rw [h1, h2, kvF_putFabric]
-            by_cases hik : i = f.idx
-            · rw [if_pos hik, hik, hidx]; exact hg
-            · rw [if_neg hik]
-              exact hc.1 i hi (by simp [exemptIdx, hfs0, hab0, ← hidx]; exact hik)
-          · simp [kvCommit, kvNets]
-        have hfsn : (kvCommit n2 { n2.kv with nets := some (n2.nets, n2.managed) }).fs = none := by
-          rw [← hn2, ← hn1]; rfl
-        exact ⟨⟨coh_of_agree hag, hf2⟩, fun _ => ⟨hag, hfsn⟩⟩
+        have ⟨hfr1, hst1⟩ := storeFabric_spec n f
+        rcases hr1 : storeFabric n f with ⟨n1, b1⟩
+        rw [hr1] at hfr1 hst1
+        simp only at hfr1 hst1
+        rcases hst1 with ⟨hb1, hkv1, _⟩ | ⟨hb1, hkv1, _⟩
+        · subst hb1
+          simp only []
+          -- the fabric is stored: still armed for it
+          have hget1 : ∀ i, getFabric n1 i = getFabric n i := by intro i; simp only [getFabric, hfr1.fabrics]
+          have hkvF1 : ∀ i, kvF n1.kv i = if i = f.idx then some f else kvF n.kv i := by
+            intro i; rw [hkv1, kvF_putFabric]
+          have hc1 : CohD n1 D := by
+            refine ⟨fun i hi he hd => ?_, fun hn => ?_, fun a ha h0 h1 h2 h3 => ?_⟩
+            · have hif : i ≠ f.idx := by
+                have : exemptIdx n1 = f.idx := by simp [exemptIdx, hfr1.fs, hfs0, hab0, hidx]
+                rw [← this]; exact he
+              rw [hget1, hkvF1, if_neg hif]
+              exact hc.1 i hi (by simp [exemptIdx, hfs0, hab0, ← hidx]; exact hif) hd
+            · rw [hfr1.fs, hfs0] at hn; simp at hn
+            · right
+              have : a = a0 := by rw [hfr1.fs, hfs0] at ha; simpa using ha.symm
+              subst this
+              rw [hget1, hkvF1, hab0, ← hidx]
+              simp [hidx, hg]
+          generalize hn1m : ({ n1 with managed := true } : Node) = n1m
+          have hc1m : CohD n1m D := by
+            rw [← hn1m]
+            exact cohD_nets_armed n1.nets true hc1 (by rw [hfr1.fs, hfs0]; simp)
+          have ⟨hfr2, hst2⟩ := storeNets_spec n1m
+          rcases hr2 : storeNets n1m with ⟨n2, b2⟩
+          rw [hr2] at hfr2 hst2
+          simp only at hfr2 hst2
+          have hfs1m : n1m.fs = some a0 := by rw [← hn1m]; exact hfr1.fs.trans hfs0
+          rcases hst2 with ⟨hb2, hkv2, _⟩ | ⟨hb2, hkv2, _⟩
+          · subst hb2
+            simp only [ok]
+            have hget2 : ∀ i, getFabric n2 i = getFabric n i := by
+              intro i; simp only [getFabric, hfr2.fabrics]; rw [← hn1m]; exact hget1 i
+            have hkvF2 : ∀ i, kvF n2.kv i = if i = f.idx then some f else kvF n.kv i := by
+              intro i
+              have : kvF n2.kv i = kvF n1.kv i := by rw [hkv2, ← hn1m]; rfl
+              rw [this, hkvF1]
+            have hjoint : ∀ i, (i ≠ 0 ∧ i ∉ D) ∨ i = f.idx → getFabric n2 i = kvF n2.kv i := by
+              intro i hd
+              rw [hget2, hkvF2]
+              by_cases hif : i = f.idx
+              · rw [if_pos hif, hif, hidx]; exact hg
+              · rw [if_neg hif]
+                have hd' := hd.elim id (fun h => absurd h hif)
+                exact hc.1 i hd'.1 (by simp [exemptIdx, hfs0, hab0, ← hidx]; exact hif) hd'.2
+            refine ⟨⟨fun i hi _ hd => ?_, fun _ => ?_, fun a ha => by simp at ha⟩, fun _ => ⟨triv, ?_, ?_⟩⟩
+            · exact hjoint i (Or.inl ⟨hi, hd⟩)
+            · show (n2.nets, n2.managed) = kvNets n2.kv
+              rw [hkv2, hfr2.nets, hfr2.managed]
+              simp [kvNets]
+            · exact hjoint mode.fab (Or.inr hidx.symm)
+            · show (getFabric n2 mode.fab).isSome = true
+              rw [hget2, hg]; rfl
+          · subst hb2
+            simp only []
+            have hc2 : CohD n2 D := cohD_frame hfr2 (by rw [hkv2]) (by rw [hkv2]) hc1m
+            refine ⟨?_, by simp⟩
+            exact cohD_nets_armed n2.nets n1.managed hc2 (by rw [hfr2.fs, hfs1m]; simp)
+        · subst hb1
+          simp only []
+          exact ⟨cohD_frame hfr1 (by rw [hkv1]) (by rw [hkv1]) hc, by simp⟩
 
-/-- adding the fabric `f` at a fresh index and binding the fail-safe context to it keeps coherence
-(the context was bound to no fabric before: AddNOC over a not yet promoted PASE session) -/
-theorem coh_addnoc {n : Node} (a b : Armed) (f : Fabric) (g : Nat) (hc : Coh n) (hfs : n.fs = some a)
-    (ha : a.fab = 0) (hb : b.fab = f.idx) :
-    Coh { n with fabrics := n.fabrics ++ [f], nextGen := g, fs := some b } := by
-  refine ⟨fun i hi he => ?_, fun hn => by simp at hn⟩
-  have hif : i ≠ f.idx := by simpa [exemptIdx, hb] using he
-  show (n.fabrics ++ [f]).find? (fun x => decide (x.idx = i)) = kvF n.kv i
-  rw [find_append_single]
-  have := hc.1 i hi (by simp [exemptIdx, hfs, ha]; exact hi)
-  simp only [getFabric] at this
-  rw [this]
-  have hfi : ¬ f.idx = i := fun h => hif h.symm
-  cases kvF n.kv i <;> simp [hfi]
+theorem checkState_none {a : Armed} {mode : Mode} {present absent : Flags → Bool} {noc : Bool}
+    (h : checkState a mode present absent noc = none) :
+    a.fab = mode.fab ∧ present a.flags = true ∧ absent a.flags = false := by
+  unfold checkState at h
+  by_cases h1 : a.fab = mode.fab
+  · by_cases h2 : present a.flags = true
+    · by_cases h3 : absent a.flags = true
+      · simp [h1, h2, h3] at h
+      · exact ⟨h1, h2, by simpa using h3⟩
+    · simp only [h1, ne_eq, not_true_eq_false, if_false, h2, Bool.false_eq_true, Bool.not_false, if_true] at h
+      split at h <;> cases h
+  · simp [h1] at h
 
-theorem sessOp_addnoc_coh (cfg : Cfg) (n : Node) (sid s ca fid node subj ser : Nat) (hc : Coh n) (hf : n.failIn = 0) :
-    Coh (sessOp cfg n sid (.pase 0) (.addnoc s ca fid node subj ser)).1 ∧
-    (sessOp cfg n sid (.pase 0) (.addnoc s ca fid node subj ser)).1.failIn = 0 := by
+/-- `AddNOC` re-binds the fail-safe context to the fabric it adds: the fabric the context was bound
+to before is not exempt any more, so it must agree with the store (`DefOK`) -/
+theorem cohD_rebind {n n' : Node} {D : List Nat} (a b : Armed) (idx : Nat) (hc : CohD n D)
+    (hfs : n.fs = some a) (hfs' : n'.fs = some b) (hb : b.fab = idx) (hbf : b.flags.addNoc = true)
+    (hmem : ∀ i, i ≠ idx → getFabric n' i = getFabric n i) (hkv : n'.kv = n.kv)
+    (hold : a.fab ≠ 0 → a.fab ∈ D ∨ getFabric n a.fab = kvF n.kv a.fab) : CohD n' D := by
+  refine ⟨fun i hi he hd => ?_, fun hn => by rw [hfs'] at hn; simp at hn, fun c hc' _ _ _ h3 => ?_⟩
+  · have hii : i ≠ idx := by simpa [exemptIdx, hfs', hb] using he
+    rw [hmem i hii, hkv]
+    by_cases hia : i = a.fab
+    · rcases hold (by rw [← hia]; exact hi) with hm | heq
+      · exact absurd (by rw [hia]; exact hm) hd
+      · rw [hia]; exact heq
+    · exact hc.1 i hi (by simp [exemptIdx, hfs]; exact hia) hd
+  · have : c = b := by rw [hfs'] at hc'; simpa using hc'.symm
+    subst this
+    rw [hbf] at h3; cases h3
+
+theorem sessOp_addnoc_cohD (cfg : Cfg) (n : Node) (D : List Nat) (sid s ca fid node subj ser : Nat) (mode : Mode)
+    (hc : CohD n D) :
+    CohD (sessOp cfg n sid mode (.addnoc s ca fid node subj ser)).1 D := by
   unfold sessOp
-  cases hca : checkArmed n (.pase 0) with
-  | some e => exact ⟨hc, hf⟩
+  cases hca : checkArmed n mode with
+  | some e => exact hc
   | none =>
     have ⟨a0, hfs0, hab0⟩ := checkArmed_none hca
     simp only [hfs0]
-    split
-    · exact ⟨hc, hf⟩
-    · split
-      · exact ⟨hc, hf⟩
-      · split
-        · exact ⟨hc, hf⟩
+    cases hcs : checkState a0 mode (fun f => f.root && f.addCsr) (fun f => f.addNoc || f.updCsr || f.updNoc) true with
+    | some e => exact hc
+    | none =>
+      have ⟨_, _, habs⟩ := checkState_none hcs
+      simp only [Bool.or_eq_false_iff] at habs
+      simp only []
+      split
+      · exact hc
+      · rename_i hbusy
+        have hold : a0.fab ≠ 0 → a0.fab ∈ D ∨ getFabric n a0.fab = kvF n.kv a0.fab := by
+          intro h0
+          have hdef : a0.deferred = false := by
+            cases hd : a0.deferred with
+            | false => rfl
+            | true => exact absurd (by simp [h0, hd]) hbusy
+          exact hc.2.2 a0 hfs0 h0 hdef habs.2 habs.1.1
+        split
+        · exact hc
         · split
-          · exact ⟨hc, hf⟩
+          · exact hc
           · split
-            · exact ⟨hc, hf⟩
-            · rename_i idx _
-              split
-              · exact ⟨hc, hf⟩
-              · refine ⟨?_, hf⟩
-                have := coh_addnoc a0 { a0 with fab := idx, flags := { a0.flags with addNoc := true } }
-                  { idx := idx, gen := n.nextGen, ca := n.staged, fid := fid, node := node, ser := ser,
-                    acl := [subj], grp := [], label := 0 } (n.nextGen + 1) hc hfs0 (by simpa [Mode.fab] using hab0) rfl
-                exact coh_congr rfl rfl rfl rfl rfl rfl this
+            · exact hc
+            · split
+              · exact hc
+              · rename_i idx _
+                split
+                · exact hc
+                · -- the new fabric `f` at index `idx`
+                  generalize hf : ({ idx := idx, gen := n.nextGen, ca := n.staged, fid := fid, node := node, ser := ser,
+                                     acl := [subj], grp := [], label := 0 } : Fabric) = f
+                  have hfi : f.idx = idx := by rw [← hf]
+                  have happ : ∀ i, i ≠ idx → (n.fabrics ++ [f]).find? (fun g => decide (g.idx = i)) = getFabric n i := by
+                    intro i hi
+                    rw [find_append_single]
+                    have : ¬ f.idx = i := by rw [hfi]; exact fun h => hi h.symm
+                    simp only [getFabric, this, if_false]
+                    cases n.fabrics.find? (fun g => decide (g.idx = i)) <;> rfl
+                  split
+                  · -- promoted PASE session
+                    refine cohD_rebind a0 { a0 with fab := idx, flags := { a0.flags with addNoc := true } } idx hc hfs0
+                      triv triv triv (fun i hi => ?_) triv hold
+                    exact happ i hi
+                  · -- scopeguard: the fabric is removed again
+                    refine cohD_rebind a0 { a0 with fab := idx, flags := { a0.flags with addNoc := true } } idx hc hfs0
+                      triv triv triv (fun i hi => ?_) triv hold
+                    show List.find? (fun g => decide (g.idx = i)) (List.filter (fun g => decide (g.idx ≠ idx)) (n.fabrics ++ [f])) = getFabric n i
+                    rw [find_filter_ne, if_neg hi]
+                    exact happ i hi
+                  · refine cohD_rebind a0 { a0 with fab := idx, flags := { a0.flags with addNoc := true } } idx hc hfs0
+                      triv triv triv (fun i hi => ?_) triv hold
+                    exact happ i hi
 
 /-! ### sessions after the prologue keep their id and mode -/
 
@@ -789,16 +1076,8 @@ theorem expireArmed_sub (cfg : Cfg) (n : Node) (a : Armed) (exp : Option Nat) :
   | error e => exact sessSub_refl _
   | ok fs => exact rollbackSessions_sub n _ exp
 
-theorem purgeResum_sessions (n : Node) (i : Nat) : (purgeResum n i).1.sessions = n.sessions := by
-  unfold purgeResum
-  by_cases h : (n.resum.any fun r => decide (r.fab = i)) = true
-  · simp only [h, if_true, kvTick]
-    by_cases h0 : n.failIn = 0
-    · simp [h0, kvCommit]
-    · by_cases h1 : n.failIn = 1
-      · simp [h1]
-      · simp [h0, h1, kvCommit]
-  · simp [h]
+theorem purgeResum_sessions (n : Node) (i : Nat) : (purgeResum n i).1.sessions = n.sessions :=
+  (purgeResum_spec n i).2.1
 
 theorem expireAndPurge_sub (cfg : Cfg) (n : Node) (a : Armed) (exp : Option Nat) :
     SessSub (expireAndPurge cfg n a exp).1.sessions n.sessions := by
@@ -838,6 +1117,7 @@ theorem checkTimeouts_sub (cfg : Cfg) (n : Node) (sid : Option Nat) :
       | none => simp only []; rw [windowTimeout_sessions, heq]; exact h
     · simp only [ht, if_false]; rw [windowTimeout_sessions]; exact sessSub_refl _
 
+
 /-! ### restart, and the whole step -/
 
 /-- a restart rebuilds exactly the stored view -/
@@ -852,148 +1132,212 @@ theorem restartFrom_agree (n : Node) (kv : KV) (hist : List KV) :
      · simp [kvNets]; cases kv.nets <;> simp
      all_goals simp)
 
-theorem addSess_coh (cfg : Cfg) (n : Node) (mode : Mode) (peer gen : Nat) (hc : Coh n) (hf : n.failIn = 0) :
-    Coh (addSess cfg n mode peer gen).1 ∧ (addSess cfg n mode peer gen).1.failIn = 0 := by
+theorem addSess_cohD (cfg : Cfg) (n : Node) (D : List Nat) (mode : Mode) (peer gen : Nat) (hc : CohD n D) :
+    CohD (addSess cfg n mode peer gen).1 D := by
   unfold addSess
   simp only []
   split
-  · exact ⟨coh_congr rfl rfl rfl rfl rfl rfl hc, hf⟩
-  · exact ⟨coh_congr rfl rfl rfl rfl rfl rfl hc, hf⟩
-
-/-- what the coherence theorem assumes about one operation: no injected store fault, no factory
-reset (treated separately in C11), and AddNOC arrives over a not yet promoted PASE session (AddNOC
-over CASE re-binds the fail-safe context: open finding `C08-failsafe-context-switch`) -/
-def SafeOp (n : Node) : Op → Prop
-  | .kvfail _ => False
-  | .freset => False
-  | .addnoc s _ _ _ _ _ => ∀ se ∈ n.sessions, se.id = s → se.mode = .pase 0
-  | _ => True
+  · exact cohD_congr triv triv triv triv triv triv hc
+  · exact cohD_congr triv triv triv triv triv triv hc
 
 theorem getSess_mem {n : Node} {sid : Nat} {s : Sess} (h : getSess n sid = some s) : s ∈ n.sessions ∧ s.id = sid := by
   unfold getSess at h
   exact ⟨List.mem_of_find?_eq_some h, by simpa using List.find?_some h⟩
 
-theorem sessOp_coh (cfg : Cfg) (n : Node) (sid : Nat) (mode : Mode) (op : Op) (hc : Coh n) (hf : n.failIn = 0)
-    (hsafe : ∀ s ca fid node subj ser, op = .addnoc s ca fid node subj ser → mode = .pase 0) :
-    Coh (sessOp cfg n sid mode op).1 ∧ (sessOp cfg n sid mode op).1.failIn = 0 := by
+theorem sessOp_cohD (cfg : Cfg) (n : Node) (D : List Nat) (sid : Nat) (mode : Mode) (op : Op) (hc : CohD n D) :
+    CohD (sessOp cfg n sid mode op).1 (dirtyOp D mode op (sessOp cfg n sid mode op).2) := by
   cases op with
-  | openW s => exact sessOp_openW_coh cfg n sid s mode hc hf
-  | arm s secs => exact sessOp_arm_coh cfg n sid s secs mode hc hf
-  | csr s upd => exact sessOp_csr_coh cfg n sid s upd mode hc hf
-  | root s ca => exact sessOp_root_coh cfg n sid s ca mode hc hf
-  | addnoc s ca fid node subj ser =>
-    have := hsafe s ca fid node subj ser rfl
-    subst this
-    exact sessOp_addnoc_coh cfg n sid s ca fid node subj ser hc hf
-  | updnoc s node ser => exact sessOp_updnoc_coh cfg n sid s node ser mode hc hf
-  | acl s v => exact sessOp_acl_coh cfg n sid s v mode hc hf
-  | grp s v => exact sessOp_grp_coh cfg n sid s v mode hc hf
-  | label s v => exact sessOp_label_coh cfg n sid s v mode hc hf
-  | net s v => exact sessOp_net_coh cfg n sid s v mode hc hf
-  | rmnet s v => exact sessOp_rmnet_coh cfg n sid s v mode hc hf
-  | complete s => exact (sessOp_complete_agree cfg n sid s mode hc hf).1
-  | rmfab s idx => exact sessOp_rmfab_coh cfg n sid s idx mode hc hf
-  | revoke s => exact sessOp_revoke_coh cfg n sid s mode hc hf
-  | _ => exact ⟨hc, hf⟩
+  | openW s => exact sessOp_openW_cohD cfg n D sid s mode hc
+  | arm s secs => exact sessOp_arm_cohD cfg n D sid s secs mode hc
+  | csr s upd => exact sessOp_csr_cohD cfg n D sid s upd mode hc
+  | root s ca => exact sessOp_root_cohD cfg n D sid s ca mode hc
+  | addnoc s ca fid node subj ser => exact sessOp_addnoc_cohD cfg n D sid s ca fid node subj ser mode hc
+  | updnoc s node ser => exact sessOp_updnoc_cohD cfg n D sid s node ser mode hc
+  | acl s v => exact sessOp_acl_cohD cfg n D sid s v mode hc
+  | grp s v => exact sessOp_grp_cohD cfg n D sid s v mode hc
+  | label s v => exact sessOp_label_cohD cfg n D sid s v mode hc
+  | net s v => exact sessOp_net_cohD cfg n D sid s v mode hc
+  | rmnet s v => exact sessOp_rmnet_cohD cfg n D sid s v mode hc
+  | complete s => exact (sessOp_complete_cohD cfg n D sid s mode hc).1
+  | rmfab s idx => exact sessOp_rmfab_cohD cfg n D sid s idx mode hc
+  | revoke s => exact sessOp_revoke_cohD cfg n D sid s mode hc
+  | bcw s v => exact sessOp_bcw_cohD cfg n D sid s v mode hc
+  | fwrite s => exact sessOp_fwrite_cohD cfg n D sid s mode hc
+  | _ => exact hc
 
-theorem coh_resum {n : Node} (r : List Resum) (hc : Coh n) : Coh { n with resum := r } :=
-  coh_congr rfl rfl rfl rfl rfl rfl hc
+/-- the dirty set after one operation: a restart re-synchronises everything; a fabric-scoped write
+that was answered with a store error makes the fabric of its session dirty -/
+def dirtyStep (cfg : Cfg) (n : Node) (op : Op) (D : List Nat) : List Nat :=
+  match op with
+  | .restart | .crash _ | .corrupt | .coldreset | .fabrecover _ => []
+  | _ =>
+    match isSessOp op with
+    | some sid =>
+      match getSess (checkTimeouts cfg n (some sid)).1 sid with
+      | some s => dirtyOp D s.mode op (step cfg n op).2
+      | none => D
+    | none => D
 
-/-- **Coherence is an invariant** of every operation (without store faults) -/
-theorem step_coh (cfg : Cfg) (n : Node) (op : Op) (hc : Coh n) (hf : n.failIn = 0) (hs : SafeOp n op) :
-    Coh (step cfg n op).1 ∧ (step cfg n op).1.failIn = 0 := by
+theorem dirtyOp_sup (D : List Nat) (mode : Mode) (op : Op) (st : Status) : ∀ i, i ∈ D → i ∈ dirtyOp D mode op st := by
+  intro i hi
+  unfold dirtyOp
+  split <;> (try split) <;> first | exact List.mem_cons_of_mem _ hi | exact hi
+
+/-- a session-borne command either stops in the prologue (no session, reserved session, prologue
+error, session gone or expired) or is `sessOp` on the state after the prologue -/
+theorem step_sess (cfg : Cfg) (n : Node) (op : Op) (sid : Nat) (hso : isSessOp op = some sid) :
+    (step cfg n op).1 = n ∨ (step cfg n op).1 = (checkTimeouts cfg n (some sid)).1 ∨
+    ∃ s1, getSess (checkTimeouts cfg n (some sid)).1 sid = some s1 ∧
+      step cfg n op = sessOp cfg (checkTimeouts cfg n (some sid)).1 sid s1.mode op := by
   unfold step
+  simp only [hso]
+  cases hg : getSess n sid with
+  | none => exact Or.inl triv
+  | some s0 =>
+    simp only []
+    split
+    · exact Or.inl triv
+    rcases hct : checkTimeouts cfg n (some sid) with ⟨n1, e⟩
+    cases e with
+    | some e => exact Or.inr (Or.inl triv)
+    | none =>
+      simp only []
+      cases hg1 : getSess n1 sid with
+      | none => exact Or.inr (Or.inl triv)
+      | some s1 =>
+        simp only []
+        split
+        · exact Or.inr (Or.inl triv)
+        · exact Or.inr (Or.inr ⟨s1, triv, triv⟩)
+
+/-- **Coherence (with the dirty set) is an invariant** of every operation, store faults included;
+only the factory reset is excluded (treated in C11) -/
+theorem step_cohD (cfg : Cfg) (n : Node) (D : List Nat) (op : Op) (hc : CohD n D) (hop : op ≠ .freset) :
+    CohD (step cfg n op).1 (dirtyStep cfg n op D) := by
   cases hso : isSessOp op with
   | some sid =>
-    simp only []
-    cases hg : getSess n sid with
-    | none => exact ⟨hc, hf⟩
-    | some s0 =>
-      simp only []
-      have ⟨hc1, hf1⟩ := checkTimeouts_coh cfg n (some sid) hc hf
-      have hsub := checkTimeouts_sub cfg n (some sid)
-      rcases hct : checkTimeouts cfg n (some sid) with ⟨n1, e⟩
-      rw [hct] at hc1 hf1 hsub
-      simp only at hc1 hf1 hsub
-      cases e with
-      | some e => exact ⟨hc1, hf1⟩
-      | none =>
-        simp only []
-        cases hg1 : getSess n1 sid with
-        | none => exact ⟨hc1, hf1⟩
-        | some s1 =>
-          simp only []
-          split
-          · exact ⟨hc1, hf1⟩
-          · refine sessOp_coh cfg n1 sid s1.mode op hc1 hf1 ?_
-            intro s ca fid node subj ser hop
-            subst hop
-            have hsid : sid = s := by simpa [isSessOp] using hso.symm
-            have ⟨hm1, hid1⟩ := getSess_mem hg1
-            obtain ⟨s', hs', hid', hmode'⟩ := hsub s1 hm1
-            have := hs s' hs' (by rw [hid', hid1, hsid])
-            rw [← hmode', this]
-  | none =>
-    simp only []
-    cases op with
-    | boot => simp only []; split <;> first | exact ⟨hc, hf⟩ | exact ⟨coh_window _ hc, hf⟩
-    | pase =>
-      simp only []
+    have hds : dirtyStep cfg n op D =
+        match getSess (checkTimeouts cfg n (some sid)).1 sid with
+        | some s => dirtyOp D s.mode op (step cfg n op).2
+        | none => D := by
+      unfold dirtyStep
+      cases op <;> simp_all [isSessOp]
+    rw [hds]
+    have hsup : ∀ (m : Node), CohD m D → CohD m (match getSess (checkTimeouts cfg n (some sid)).1 sid with
+        | some s => dirtyOp D s.mode op (step cfg n op).2
+        | none => D) := by
+      intro m hm
+      refine cohD_mono (fun i hi => ?_) hm
       split
-      · exact ⟨hc, hf⟩
-      · have := addSess_coh cfg n (.pase 0) 0 0 hc hf
+      · exact dirtyOp_sup _ _ _ _ i hi
+      · exact hi
+    have hc1 := checkTimeouts_cohD cfg n D (some sid) hc
+    rcases step_sess cfg n op sid hso with h | h | ⟨s1, hg1, h⟩
+    · rw [h]; exact hsup _ hc
+    · rw [h]; exact hsup _ hc1
+    · simp only [hg1]
+      rw [h]
+      exact sessOp_cohD cfg _ D sid s1.mode op hc1
+  | none =>
+    cases op with
+    | boot =>
+      simp only [step, isSessOp, dirtyStep]
+      split <;> first | exact hc | exact cohD_congr triv triv triv triv triv triv hc
+    | pase =>
+      simp only [step, isSessOp, dirtyStep]
+      split
+      · exact hc
+      · have := addSess_cohD cfg n D (.pase 0) 0 0 hc
         rcases hr : addSess cfg n (.pase 0) 0 0 with ⟨n1, o⟩
         rw [hr] at this
         cases o <;> exact this
     | caseEst fab node rid =>
-      simp only []
+      simp only [step, isSessOp, dirtyStep]
       split
-      · exact ⟨hc, hf⟩
+      · exact hc
       · rename_i f _
-        have := addSess_coh cfg n (.case fab) node f.gen hc hf
+        have := addSess_cohD cfg n D (.case fab) node f.gen hc
         rcases hr : addSess cfg n (.case fab) node f.gen with ⟨n1, o⟩
         rw [hr] at this
         cases o with
         | none => exact this
-        | some id => exact ⟨coh_resum _ this.1, this.2⟩
+        | some id => exact cohD_congr triv triv triv triv triv triv this
     | resume rid newRid =>
-      simp only []
+      simp only [step, isSessOp, dirtyStep]
       split
-      · exact ⟨hc, hf⟩
+      · exact hc
       · rename_i r _
         split
-        · exact ⟨hc, hf⟩
-        · have := addSess_coh cfg n (.case r.fab) r.peer r.gen hc hf
+        · exact hc
+        · have := addSess_cohD cfg n D (.case r.fab) r.peer r.gen hc
           rcases hr : addSess cfg n (.case r.fab) r.peer r.gen with ⟨n1, o⟩
           rw [hr] at this
           cases o with
           | none => exact this
-          | some id => exact ⟨coh_resum _ this.1, this.2⟩
-    | tick secs => exact ⟨coh_congr rfl rfl rfl rfl rfl rfl hc, hf⟩
+          | some id => exact cohD_congr triv triv triv triv triv triv this
+    | tick secs =>
+      simp only [step, isSessOp, dirtyStep, ok]
+      exact cohD_congr triv triv triv triv triv triv hc
     | poll =>
-      simp only []
-      have := checkTimeouts_coh cfg n none hc hf
+      simp only [step, isSessOp, dirtyStep]
+      have := checkTimeouts_cohD cfg n D none hc
       rcases hr : checkTimeouts cfg n none with ⟨n1, e⟩
       rw [hr] at this
       cases e <;> exact this
     | flush =>
-      simp only [kvTick_nofault n hf]
-      exact ⟨coh_congr rfl rfl rfl rfl rfl rfl hc, hf⟩
+      have ⟨hfr, hkv, _⟩ := kvTick_frame n
+      rcases ht : kvTick n with ⟨n1, bad⟩
+      rw [ht] at hfr hkv
+      simp only at hfr hkv
+      simp only [step, isSessOp, dirtyStep, ht]
+      cases bad with
+      | true =>
+        simp only [if_true]
+        exact cohD_frame hfr (by rw [hkv]) (by rw [hkv]) hc
+      | false =>
+        simp only [Bool.false_eq_true, if_false, ok, kvCommit]
+        exact cohD_congr hfr.fabrics hfr.fs hfr.nets hfr.managed (by simp [hkv]) (by simp [hkv]) hc
     | restart =>
-      have ⟨h1, _, h3, _⟩ := restartFrom_agree n n.kv n.hist
-      exact ⟨coh_of_agree h1, h3⟩
+      simp only [step, isSessOp, dirtyStep, ok]
+      exact cohD_of_agree [] (restartFrom_agree n n.kv n.hist).1
     | crash k =>
-      simp only []
-      have ⟨h1, _, h3, _⟩ := restartFrom_agree n
-        (match List.drop (n.hist.length - min k n.hist.length) n.hist with | kv :: _ => kv | [] => {})
-        (List.drop (n.hist.length - min k n.hist.length) n.hist)
-      exact ⟨coh_of_agree h1, h3⟩
+      simp only [step, isSessOp, dirtyStep, ok]
+      exact cohD_of_agree [] (restartFrom_agree n _ _).1
     | corrupt =>
-      simp only []
-      have ⟨h1, _, h3, _⟩ := restartFrom_agree n { n.kv with resum := .garbage } ({ n.kv with resum := .garbage } :: n.hist)
-      exact ⟨coh_of_agree h1, h3⟩
-    | kvfail k => exact absurd hs (by simp [SafeOp])
-    | freset => exact absurd hs (by simp [SafeOp])
+      simp only [step, isSessOp, dirtyStep, ok]
+      exact cohD_of_agree [] (restartFrom_agree n _ _).1
+    | kvfail k =>
+      simp only [step, isSessOp, dirtyStep, ok]
+      exact cohD_congr triv triv triv triv triv triv hc
+    | hs fab node rid =>
+      simp only [step, isSessOp, dirtyStep]
+      split
+      · exact hc
+      · rename_i f _
+        have := addSess_cohD cfg n D (.case fab) node f.gen hc
+        rcases hr : addSess cfg n (.case fab) node f.gen with ⟨n1, o⟩
+        rw [hr] at this
+        cases o with
+        | none => exact this
+        | some id => exact cohD_congr triv triv triv triv triv triv this
+    | hsdone sid =>
+      simp only [step, isSessOp, dirtyStep]
+      split
+      · exact cohD_congr triv triv triv triv triv triv hc
+      · exact hc
+    | nop => exact hc
+    | sdrop sid =>
+      simp only [step, isSessOp, dirtyStep]
+      split
+      · exact hc
+      · exact cohD_congr triv triv triv triv triv triv hc
+    | coldreset =>
+      simp only [step, isSessOp, dirtyStep, ok]
+      exact cohD_of_agree [] ⟨fun i _ => by simp [getFabric, kvF], by simp [kvNets]⟩
+    | fabrecover i =>
+      simp only [step, isSessOp, dirtyStep, ok]
+      exact cohD_of_agree [] ⟨fun i _ => by simp [getFabric, kvF], by simp [kvNets]⟩
+    | freset => exact absurd rfl hop
     | _ => simp [isSessOp] at hso
 
 /-- a history, one operation after the other -/
@@ -1001,30 +1345,29 @@ def run (cfg : Cfg) (n : Node) : List Op → Node
   | [] => n
   | op :: rest => run cfg (step cfg n op).1 rest
 
-/-- every operation of the history is `SafeOp` in the state it is applied to -/
-def SafeHist (cfg : Cfg) : Node → List Op → Prop
-  | _, [] => True
-  | n, op :: rest => SafeOp n op ∧ SafeHist cfg (step cfg n op).1 rest
+/-- the dirty set of a history -/
+def dirtyRun (cfg : Cfg) (n : Node) (D : List Nat) : List Op → List Nat
+  | [] => D
+  | op :: rest => dirtyRun cfg (step cfg n op).1 (dirtyStep cfg n op D) rest
 
-instance (n : Node) (op : Op) : Decidable (SafeOp n op) := by
-  cases op <;> simp only [SafeOp] <;> infer_instance
-
-instance decSafeHist (cfg : Cfg) : (n : Node) → (ops : List Op) → Decidable (SafeHist cfg n ops)
-  | _, [] => isTrue trivial
-  | n, op :: rest =>
-    have := decSafeHist cfg (step cfg n op).1 rest
-    by simp only [SafeHist]; infer_instance
-
-theorem run_coh (cfg : Cfg) (ops : List Op) : ∀ (n : Node), Coh n → n.failIn = 0 → SafeHist cfg n ops →
-    Coh (run cfg n ops) ∧ (run cfg n ops).failIn = 0 := by
+theorem run_cohD (cfg : Cfg) (ops : List Op) : ∀ (n : Node) (D : List Nat), CohD n D → Op.freset ∉ ops →
+    CohD (run cfg n ops) (dirtyRun cfg n D ops) := by
   induction ops with
-  | nil => intro n hc hf _; exact ⟨hc, hf⟩
+  | nil => intro n D hc _; exact hc
   | cons op rest ih =>
-    intro n hc hf hs
-    have ⟨h1, h2⟩ := step_coh cfg n op hc hf hs.1
-    exact ih _ h1 h2 hs.2
+    intro n D hc hno
+    have hop : op ≠ .freset := fun he => hno (by rw [he]; exact List.mem_cons_self)
+    exact ih _ _ (step_cohD cfg n D op hc hop) (fun hm => hno (List.mem_cons_of_mem _ hm))
 
 theorem coh_init : Coh ({} : Node) := by
-  refine ⟨fun i _ _ => ?_, fun _ => ?_⟩ <;> simp [getFabric, kvF, kvNets]
+  refine ⟨fun i _ _ _ => ?_, fun _ => ?_, fun a ha => ?_⟩
+  · simp [getFabric, kvF]
+  · simp [kvNets]
+  · simp at ha
+
+theorem run_append (cfg : Cfg) (n : Node) (a b : List Op) : run cfg n (a ++ b) = run cfg (run cfg n a) b := by
+  induction a generalizing n with
+  | nil => rfl
+  | cons op rest ih => exact ih _
 
 end Admin
